@@ -1,8 +1,17 @@
-(** Proofs about the serial pass of the BIND-FREE fragment of the engine model: the pass keeps
-    the graph structure, maintains the loop invariant [PassInv.LInv], and from it: every
-    function invocation saw the final values of its inputs (C02), a successful pass leaves every
-    registered node locally consistent and re-establishes the quiescent invariant (C01), exactly
-    the owed nodes ran, each once (C03), a cut stops propagation (C11). *)
+(** Proofs about the BIND-FREE fragment of the engine model (properties C01, C02, C03, pass half
+    of C11).  Contents:
+    A  basics; the boolean heap invariant of [EngineWf] vs [HeapSpec.inv]; the heap cursor
+    B  the fragment [BF] and the structural facts [Struct] derived from [wfb]; reachability
+    C  [valueOf] / [node_consistent] read kinds, declarations and values only
+    D  the frame [sframe] of a bind-free pass (the graph structure is constant)
+    E  the children loop and the tail of [recomputeNodeSerial]
+    F  what one call of [recomputeNodeSerial] does ([stepPost])
+    G  one call preserves the loop invariant [PassInv.LInv]
+    H  the direct-recompute chain and the pass loop
+    I  the whole pass ([PassEnd]); J consequences; K the pass theorems (C02, C01, C03, C11, [wfb])
+    L  soundness of the boolean checker of [ValInv]; M an example history; N statement forms
+    O  from local consistency to [Spec.eval] (uses SpecProofs' Theorem A)
+    P  every other operation of the fragment preserves [ValInv]; Q histories ([static_run]). *)
 From stdpp Require Import sorting.
 From incr Require Import Base Heap HeapSpec HeapProofs EngineDefs Engine EngineRun EngineWf Spec
      EngineLemmas PassInv.
@@ -55,6 +64,51 @@ Qed.
 Lemma elem_allNodes s n : n ∈ allNodes s <-> has s n /\ (n < next s)%nat.
 Proof.
   unfold allNodes. rewrite elem_of_list_filter, elem_of_seq. unfold has. intuition lia.
+Qed.
+
+(** ** The heap wrappers, against [HeapSpec.inv] directly (self-contained copies: the invariant
+    [EngineLemmas.hinv] is owned by another component and has changed shape) *)
+Lemma inHeap_iff0 s n : HeapSpec.inv (heap s) -> (inHeap s n = true <-> n ∈ Heap.ids (heap s)).
+Proof.
+  intros I. unfold inHeap. split.
+  - intros Hm. destruct (mem_true_inv _ _ I Hm) as (h & Hh & _ & _ & Hb).
+    apply elem_ids. eauto.
+  - intros Hin. destruct (Heap.mem (heap s) n) eqn:E; [reflexivity|].
+    destruct (mem_false_inv _ _ I E) as [Hn _]. contradiction.
+Qed.
+
+Lemma inHeap_false_iff0 s n : HeapSpec.inv (heap s) -> (inHeap s n = false <-> n ∉ Heap.ids (heap s)).
+Proof.
+  intros I. rewrite <- (inHeap_iff0 s n I). destruct (inHeap s n); split; congruence.
+Qed.
+
+Lemma heapAdd_spec0 s n s' :
+  HeapSpec.inv (heap s) -> inHeap s n = false -> 0 <= height (nd s n) ->
+  heapAdd s n = Ok s' ->
+  only_heap s s' /\ HeapSpec.inv (heap s') /\ Heap.ids (heap s') ≡ₚ n :: Heap.ids (heap s) /\
+  forall m, Heap.hinOf (heap s') m = if decide (m = n) then height (nd s n) else Heap.hinOf (heap s) m.
+Proof.
+  intros I Hm Hh H. apply heapAdd_inv in H as (w & E & ->).
+  destruct (heap_add_spec _ _ _ I Hm Hh) as (w' & E' & I' & P & Hin).
+  rewrite E in E'. injection E' as <-. split; [apply only_heap_set|]. auto.
+Qed.
+
+Lemma heapAddIfNotPresent_spec0 s n s' :
+  HeapSpec.inv (heap s) -> 0 <= height (nd s n) ->
+  heapAddIfNotPresent s n = Ok s' ->
+  only_heap s s' /\ HeapSpec.inv (heap s') /\
+  (forall m, m ∈ Heap.ids (heap s') <-> m = n \/ m ∈ Heap.ids (heap s)) /\
+  (forall m, Heap.hinOf (heap s') m =
+             if decide (m = n) then (if inHeap s n then Heap.hinOf (heap s) n else height (nd s n))
+             else Heap.hinOf (heap s) m).
+Proof.
+  intros I Hh H. unfold heapAddIfNotPresent in H. destruct (inHeap s n) eqn:Hm.
+  - injection H as <-. split; [apply only_heap_refl|]. split; [exact I|]. split.
+    + intros m. split; [auto|]. intros [->|]; [|assumption]. apply inHeap_iff0; assumption.
+    + intros m. destruct (decide (m = n)) as [->|]; reflexivity.
+  - destruct (heapAdd_spec0 s n s' I Hm Hh H) as (F & I' & P & Hin).
+    split; [exact F|]. split; [exact I'|]. split; [|exact Hin].
+    intros m. rewrite P, elem_of_cons. reflexivity.
 Qed.
 
 (** ** The boolean heap invariant of [EngineWf] and [HeapSpec.inv] *)
@@ -594,7 +648,7 @@ Proof. reflexivity. Qed.
 
 Record clPost (l : list nid) (s : state) (held : option nid) (s' : state) (held' : option nid) : Prop := {
   cl_only : only_heap s s';
-  cl_hinv : hinv (heap s');
+  cl_hinv : HeapSpec.inv (heap s');
   cl_cur : cursor_ok (heap s) -> cursor_ok (heap s');
   cl_held : forall h, held' = Some h -> h ∉ Heap.ids (heap s');
   cl_mono : forall x, x ∈ Heap.ids (heap s) -> x ∈ Heap.ids (heap s');
@@ -609,7 +663,7 @@ Lemma rfold_cons {A S} (f : S -> A -> res S) a l s : rfold f (a :: l) s = (s' <-
 Proof. reflexivity. Qed.
 
 Lemma clBody_spec s held c s1 held1 :
-  hinv (heap s) -> (forall h, held = Some h -> h ∉ Heap.ids (heap s)) ->
+  HeapSpec.inv (heap s) -> (forall h, held = Some h -> h ∉ Heap.ids (heap s)) ->
   clBody (s, held) c = Ok (s1, held1) -> clPost [c] s held s1 held1.
 Proof.
   intros I Hh H. unfold clBody in H.
@@ -623,14 +677,14 @@ Proof.
   { injection H as <- <-. apply bool_decide_eq_true in Eh. apply Hsame. tauto. }
   apply bool_decide_eq_false in Eh.
   rewrite src_eq in H. destruct (inHeap s c) eqn:Ein.
-  { simpl in H. injection H as <- <-. apply Hsame. left. apply inHeap_iff; assumption. }
+  { simpl in H. injection H as <- <-. apply Hsame. left. apply inHeap_iff0; assumption. }
   destruct (owedC s c) eqn:Eo; simpl in H.
   2:{ injection H as <- <-. apply Hsame. tauto. }
-  assert (Hcn : c ∉ Heap.ids (heap s)) by (apply inHeap_false_iff; assumption).
+  assert (Hcn : c ∉ Heap.ids (heap s)) by (apply inHeap_false_iff0; assumption).
   destruct held as [h|].
   - destruct (heapAdd s h) as [s2| |] eqn:Ea; simpl in H; try discriminate. injection H as <- <-.
     assert (Hhn : h ∉ Heap.ids (heap s)) by (apply Hh; reflexivity).
-    destruct (heapAdd_spec s h s2 I (proj2 (inHeap_false_iff s h I) Hhn) (heapAdd_ok_nonneg _ _ _ Ea) Ea)
+    destruct (heapAdd_spec0 s h s2 I (proj2 (inHeap_false_iff0 s h I) Hhn) (heapAdd_ok_nonneg _ _ _ Ea) Ea)
       as (Ho & I2 & Hp & Hhin).
     assert (Hne : c <> h) by congruence.
     assert (Hcur : cursor_ok (heap s) -> cursor_ok (heap s2)).
@@ -653,7 +707,7 @@ Proof.
 Qed.
 
 Lemma clLoop_spec l : forall s held s' held',
-  hinv (heap s) -> (forall h, held = Some h -> h ∉ Heap.ids (heap s)) ->
+  HeapSpec.inv (heap s) -> (forall h, held = Some h -> h ∉ Heap.ids (heap s)) ->
   rfold clBody l (s, held) = Ok (s', held') -> clPost l s held s' held'.
 Proof.
   induction l as [|c l IH]; intros s held s' held' I Hh H.
@@ -697,7 +751,7 @@ Definition tailR (s : state) (n : nid) : res (state * option err * option nid) :
 
 Record tailPost (s3 : state) (m : nid) (s' : state) (imm : option nid) : Prop := {
   tp_shape : exists w h, s' = (upd s3 m (set changedAt (fun _ => stabNum s3))) <| heap := w |> <| handlers := h |>;
-  tp_hinv : hinv (heap s');
+  tp_hinv : HeapSpec.inv (heap s');
   tp_cur : cursor_ok (heap s3) -> cursor_ok (heap s');
   tp_imm : forall c, imm = Some c -> c ∉ Heap.ids (heap s') /\ canRecomputeImmediately s' m c = true;
   tp_mono : forall x, x ∈ Heap.ids (heap s3) -> x ∈ Heap.ids (heap s');
@@ -716,7 +770,7 @@ Proof.
 Qed.
 
 Lemma tailR_spec s3 m s' e imm :
-  hinv (heap s3) -> tailR s3 m = Ok (s', e, imm) -> e = None /\ tailPost s3 m s' imm.
+  HeapSpec.inv (heap s3) -> tailR s3 m = Ok (s', e, imm) -> e = None /\ tailPost s3 m s' imm.
 Proof.
   intros I H. unfold tailR in H.
   set (s4 := insert_handler m (upd s3 m (set changedAt (fun _ => stabNum s3)))) in *.
@@ -774,7 +828,7 @@ Proof.
     + destruct (heapAdd s5 h) as [s6| |] eqn:Ea; simpl in H; try discriminate.
       injection H as H <- <-. split; [reflexivity|].
       assert (Hhn : h ∉ Heap.ids (heap s5)) by (apply Ph; reflexivity).
-      destruct (heapAdd_spec s5 h s6 Pi (proj2 (inHeap_false_iff s5 h Pi) Hhn) (heapAdd_ok_nonneg _ _ _ Ea) Ea)
+      destruct (heapAdd_spec0 s5 h s6 Pi (proj2 (inHeap_false_iff0 s5 h Pi) Hhn) (heapAdd_ok_nonneg _ _ _ Ea) Ea)
         as (Ho6 & I6 & Hp6 & Hhin6).
       destruct (Hfin s6 ltac:(exists (heap s6); exact Ho6) H)
         as (w & hh & Es & Hh' & Hn' & Hk' & Hcan).
@@ -871,13 +925,13 @@ Record stepPost (s : state) (m : nid) (s' : state) (imm : option nid) : Prop := 
   sp_self : nd s' m = stamp (stabNum s) (value (nd s' m)) (changedAt (nd s' m)) (nd s m);
   sp_has : forall n, has s' n <-> has s n;
   sp_fields : same_fields s s';
-  sp_hinv : hinv (heap s');
+  sp_hinv : HeapSpec.inv (heap s');
   sp_cur : cursor_ok (heap s) -> cursor_ok (heap s');
   sp_case : cutPost s m s' imm \/ runPost s m s' imm
 }.
 
 Lemma run_post s m v evs s3 s' e imm :
-  has s m -> hinv (heap s) -> pre3 s m v evs s3 ->
+  has s m -> HeapSpec.inv (heap s) -> pre3 s m v evs s3 ->
   consistent_val s m v = true -> new_events s m v evs ->
   tailR s3 m = Ok (s', e, imm) ->
   e = None /\ stepPost s m s' imm.
@@ -950,7 +1004,7 @@ Proof.
 Qed.
 
 Lemma rns_step fuel s m s' e imm :
-  BF s -> has s m -> hinv (heap s) ->
+  BF s -> has s m -> HeapSpec.inv (heap s) ->
   recomputeNodeSerial fuel [] s m = Ok (s', e, imm) ->
   e = None /\ stepPost s m s' imm.
 Proof.
@@ -1072,13 +1126,13 @@ Qed.
 
 (** * G. One step preserves the loop invariant *)
 
-Lemma inW_iff s cur x : hinv (heap s) -> (inW s cur x = true <-> x ∈ Heap.ids (heap s) \/ cur = Some x).
+Lemma inW_iff s cur x : HeapSpec.inv (heap s) -> (inW s cur x = true <-> x ∈ Heap.ids (heap s) \/ cur = Some x).
 Proof.
-  intros I. unfold inW. rewrite orb_true_iff, bool_decide_eq_true, (inHeap_iff s x I). reflexivity.
+  intros I. unfold inW. rewrite orb_true_iff, bool_decide_eq_true, (inHeap_iff0 s x I). reflexivity.
 Qed.
 
 Lemma inW_false_iff s cur x :
-  hinv (heap s) -> (inW s cur x = false <-> x ∉ Heap.ids (heap s) /\ cur <> Some x).
+  HeapSpec.inv (heap s) -> (inW s cur x = false <-> x ∉ Heap.ids (heap s) /\ cur <> Some x).
 Proof.
   intros I. rewrite <- not_true_iff_false, (inW_iff s cur x I). tauto.
 Qed.
@@ -1119,8 +1173,8 @@ Section Step.
   Context (HS : Struct s) (L : LInv h0 base s (Some m)) (P : stepPost s m s' imm).
 
   Let k := stabNum s.
-  Let I : hinv (heap s) := proj1 (li_heap _ _ _ _ L).
-  Let I' : hinv (heap s') := sp_hinv _ _ _ _ P.
+  Let I : HeapSpec.inv (heap s) := proj1 (li_heap _ _ _ _ L).
+  Let I' : HeapSpec.inv (heap s') := sp_hinv _ _ _ _ P.
   Let F : sframe s s' := stepPost_sframe _ _ _ _ P.
   Let HBF : BF s := li_bf _ _ _ _ L.
 
@@ -1316,6 +1370,8 @@ Section Step.
     unfold canRecomputeImmediately in Hcan.
     destruct (isAlways (nkind (nd s' c)) || requiresHeapOrdering (nkind (nd s' c))
               || (height (nd s' m) <=? scopeHeight s' (scope (nd s' c)))); [discriminate|].
+    rewrite (bf_scope s' S_bf c) in Hcan. cbn [scopeHeight] in Hcan.
+    rewrite Z.eqb_refl in Hcan. cbn [negb andb] in Hcan.
     destruct (bool_decide (length (parents (nd s' c)) = 1%nat)) eqn:E1.
     - apply bool_decide_eq_true in E1. rewrite (sf_parents _ _ F) in E1.
       assert (Hpar : m ∈ parents (nd s c)) by (apply (st_edge _ HS); exact Hcm).
@@ -1566,7 +1622,7 @@ Lemma sframe_set_heap s w : sframe s (s <| heap := w |>).
 Proof. constructor; reflexivity. Qed.
 
 Lemma LInv_heap_change h0 base s cur w cur' :
-  LInv h0 base s cur -> hinv w ->
+  LInv h0 base s cur -> HeapSpec.inv w ->
   (forall x, inW (s <| heap := w |>) cur' x = inW s cur x) ->
   (forall q, q ∈ Heap.ids w -> q ∈ Heap.ids (heap s) /\ Heap.hinOf w q = Heap.hinOf (heap s) q) ->
   (forall m x, cur' = Some m -> x ∈ Heap.ids w -> reach s x m -> False) ->
@@ -1604,7 +1660,7 @@ Proof.
   destruct (heap_removeMin_spec _ _ _ I Hrm) as ([Hnin Hmin] & Iw & Hperm & Hhin).
   pose proof (inv_nodup _ I) as Hnd. rewrite Hperm in Hnd. apply NoDup_cons_1_1 in Hnd as Hnw.
   apply (LInv_heap_change h0 base s None w (Some n)); [exact L|exact Iw|..].
-  - intros x. assert (Iw' : hinv (heap (s <| heap := w |>))) by exact Iw.
+  - intros x. assert (Iw' : HeapSpec.inv (heap (s <| heap := w |>))) by exact Iw.
     apply eq_true_iff_eq. rewrite (inW_iff (s <| heap := w |>) (Some n) x Iw'), (inW_iff s None x I).
     change (heap (s <| heap := w |>)) with w. rewrite Hperm, elem_of_cons.
     split; [intros [?|[= ->]]; auto|intros [[->|?]|?]; auto; discriminate].
@@ -1738,10 +1794,10 @@ Definition requeueAlways (always : list nid) (s : state) : res state :=
   rfold (fun s n => if height (nd s n) =? unset then Ok s else heapAddIfNotPresent s n) always s.
 
 Lemma requeue_spec always : forall s sR,
-  hinv (heap s) -> (forall x, x ∈ always -> 0 <= height (nd s x)) ->
+  HeapSpec.inv (heap s) -> (forall x, x ∈ always -> 0 <= height (nd s x)) ->
   (forall x, x ∈ Heap.ids (heap s) -> Heap.hinOf (heap s) x = height (nd s x)) ->
   requeueAlways always s = Ok sR ->
-  only_heap s sR /\ hinv (heap sR) /\
+  only_heap s sR /\ HeapSpec.inv (heap sR) /\
   (forall x, x ∈ Heap.ids (heap sR) <-> x ∈ Heap.ids (heap s) \/ x ∈ always) /\
   (forall x, x ∈ Heap.ids (heap sR) -> Heap.hinOf (heap sR) x = height (nd s x)) /\
   (cursor_ok (heap s) -> cursor_ok (heap sR)).
@@ -1752,7 +1808,7 @@ Proof.
   - rewrite rfold_cons in H. assert (Ha : 0 <= height (nd s a)) by (apply Hh; left).
     destruct (Z.eqb_spec (height (nd s a)) unset) as [E|_]; [unfold unset in E; lia|].
     destruct (heapAddIfNotPresent s a) as [s1| |] eqn:E1; simpl in H; try discriminate.
-    destruct (heapAddIfNotPresent_spec s a s1 I Ha E1) as (O1 & I1 & M1 & Hin1).
+    destruct (heapAddIfNotPresent_spec0 s a s1 I Ha E1) as (O1 & I1 & M1 & Hin1).
     assert (Hnd1 : forall x, nd s1 x = nd s x) by (intros; apply (oh_nd _ _ O1)).
     assert (Hc1 : cursor_ok (heap s) -> cursor_ok (heap s1)).
     { intros C. unfold heapAddIfNotPresent in E1. destruct (inHeap s a); [injection E1 as <-; exact C|].
@@ -1760,7 +1816,7 @@ Proof.
     destruct (IH s1 sR I1) as (O2 & I2 & M2 & Hin2 & Hc2); [| |exact H|].
     + intros x Hx. rewrite Hnd1. apply Hh. right. exact Hx.
     + intros x Hx. rewrite Hin1, Hnd1. destruct (decide (x = a)) as [->|Hne].
-      * destruct (inHeap s a) eqn:Ea; [apply Hq, inHeap_iff; assumption|reflexivity].
+      * destruct (inHeap s a) eqn:Ea; [apply Hq, inHeap_iff0; assumption|reflexivity].
       * apply Hq. apply M1 in Hx as [?|?]; [contradiction|assumption].
     + split; [eapply only_heap_trans; eauto|]. split; [exact I2|]. split.
       * intros x. rewrite M2, M1, elem_of_cons. tauto.
@@ -1824,7 +1880,7 @@ Proof.
 Qed.
 
 Lemma wfb_queued s : wfb s = true ->
-  hinv (heap s) /\ forall q, q ∈ Heap.ids (heap s) ->
+  HeapSpec.inv (heap s) /\ forall q, q ∈ Heap.ids (heap s) ->
     inGraph (nd s q) = true /\ Heap.hinOf (heap s) q = height (nd s q).
 Proof.
   intros H. destruct (wfb_all _ H) as (_ & _ & _ & _ & _ & Hq & _).
@@ -1862,9 +1918,6 @@ Proof.
   - exists []. split; [reflexivity|]. split; constructor.
 Qed.
 
-Lemma sframe_passStart s : status s = 0 -> sframe (s <| status := 1 |> <| status := 0 |>) s.
-Proof. intros H. constructor; try reflexivity. cbn. congruence. Qed.
-
 (** everything the theorems below need about a successful bind-free pass without a plan *)
 Record PassEnd (s s' sL : state) (hev : list event) : Prop := {
   pe_inv : LInv (Heap.ids (heap s)) (EvPassStart :: log s) sL None;
@@ -1880,7 +1933,7 @@ Record PassEnd (s s' sL : state) (hev : list event) : Prop := {
   pe_kpos : 1 <= stabNum s;
   pe_quiet : status s' = 0 /\ handlers s' = [] /\ setDuring s' = [] /\ setRemoved s' = [];
   pe_log : log s' = hev ++ EvPassEnd XOk :: log sL /\ Forall isHandlerEv hev;
-  pe_heap : hinv (heap s') /\
+  pe_heap : HeapSpec.inv (heap s') /\
             (forall x, x ∈ Heap.ids (heap s') <->
                        inGraph (nd sL x) = true /\ isAlways (nkind (nd sL x)) = true) /\
             (forall x, x ∈ Heap.ids (heap s') -> Heap.hinOf (heap s') x = height (nd sL x)) /\
@@ -1895,7 +1948,6 @@ Proof.
   destruct (stabilize_nil_inv s s' Hst Hsd Hsr H) as (sL & at_ & always & sR & hev & EL & ER & Es & Hhev).
   fold (passStart s) in EL. set (s1 := passStart s) in *.
   pose proof (wfb_Struct s Hwf (vi_bf _ V)) as HS.
-  assert (F1 : sframe s s1 -> Struct s1) by (intros F; exact (sf_Struct _ _ F HS)).
   assert (HS1 : Struct s1).
   { destruct HS. constructor; assumption. }
   pose proof (LInv_start s Hwf V) as L1. fold s1 in L1.
@@ -1954,7 +2006,7 @@ Section End.
   Let k := stabNum s.
   Let LL := pe_inv _ _ _ _ E.
   Let HSL := pe_struct _ _ _ _ E.
-  Let IL : hinv (heap sL) := proj1 (li_heap _ _ _ _ LL).
+  Let IL : HeapSpec.inv (heap sL) := proj1 (li_heap _ _ _ _ LL).
   Let HBFL : BF sL := li_bf _ _ _ _ LL.
 
   Local Lemma kL : stabNum sL = k. Proof. apply E. Qed.
@@ -2076,7 +2128,7 @@ Section End.
       rewrite (pe_untouched _ _ _ _ E n Hd). apply (vi_unreg _ V). rewrite <- Hg.
       symmetry. rewrite <- (pe_untouched _ _ _ _ E n Hd). reflexivity.
     - intros n Hg Hs. rewrite nd' in Hg. rewrite end_isStale in Hs.
-      apply inHeap_iff; [apply E|]. apply (proj1 (proj2 (pe_heap _ _ _ _ E))). split; [exact Hg|].
+      apply inHeap_iff0; [apply E|]. apply (proj1 (proj2 (pe_heap _ _ _ _ E))). split; [exact Hg|].
       rewrite (stale_is_always n Hg Hs). reflexivity.
     - intros n Hg _ _. apply end_consistent_node, Hg.
   Qed.
@@ -2330,7 +2382,7 @@ Proof.
   assert (Hnd' : forall n, nd s' n = nd sL n) by (apply nodes_eq_nd, E).
   apply wfb_intro.
   - rewrite (wt_edges s s' Hsk Hhas Hn). exact W1.
-  - apply (wt_unreg s s' Hsk Hhas Hn W2). intros n Hq. apply inHeap_iff in Hq; [|exact IR].
+  - apply (wt_unreg s s' Hsk Hhas Hn W2). intros n Hq. apply inHeap_iff0 in Hq; [|exact IR].
     rewrite Hnd'. apply MR, Hq.
   - rewrite (wt_nec_clause s s' Hsk Hhas Hn). exact W3.
   - rewrite (wt_declared s s' Hsk Hhas Hn). exact W4.
@@ -2380,7 +2432,7 @@ Proof.
   split; [apply (end_invoked_nodup s s' sL hev E evs Hl)|].
   split.
   - intros n Hg [Hs|Ho]; apply (end_owed_ran s s' sL hev E n Hg); [|exact Ho].
-    left. apply inHeap_iff; [apply (wfb_queued s Hwf)|]. apply (vi_owed _ V n Hg Hs).
+    left. apply inHeap_iff0; [apply (wfb_queued s Hwf)|]. apply (vi_owed _ V n Hg Hs).
   - intros n Hn. assert (Hd : isDone sL n = false).
     { unfold isDone. apply Z.eqb_neq. rewrite (proj1 (pe_stabNum _ _ _ _ E)).
       rewrite <- (nodes_eq_nd _ _ (pe_nodes _ _ _ _ E) n). exact Hn. }
@@ -2529,3 +2581,1259 @@ Proof.
   split; [exact Hc|]. split; [exact (pass_wfb s s' Hwf V H)|]. split; [exact V'|].
   exact (pass_observers_agree s s' Hwf V H).
 Qed.
+
+(** * P. The quiescent invariant is preserved by the other operations of the fragment *)
+
+Lemma valueOf__reg_ext fuel : forall s s' p,
+  Struct s ->
+  (forall m, inGraph (nd s m) = true ->
+     nkind (nd s' m) = nkind (nd s m) /\ value (nd s' m) = value (nd s m) /\
+     (nkind (nd s m) = KAlways -> decl (nd s' m) = decl (nd s m))) ->
+  inGraph (nd s p) = true -> valueOf_ fuel s' p = valueOf_ fuel s p.
+Proof.
+  induction fuel as [|fuel IH]; intros s s' p HS H Hg; [reflexivity|].
+  simpl. destruct (H p Hg) as (-> & -> & Hd). destruct (nkind (nd s p)) eqn:K; try reflexivity.
+  rewrite (Hd eq_refl). destruct (decl (nd s p)) as [|a l] eqn:D; [reflexivity|].
+  apply IH; [exact HS|exact H|]. apply (edge_reg s HS a p). apply decl_parent; [assumption..|]. rewrite D. left.
+Qed.
+
+Definition trivial_kind (k : kind) : bool :=
+  match k with KVar _ | KReturn | KAlways => true | _ => false end.
+
+Lemma trivial_consistent s n : trivial_kind (nkind (nd s n)) = true -> node_consistent s n = true.
+Proof. unfold node_consistent. destruct (nkind (nd s n)); try discriminate; reflexivity. Qed.
+
+Lemma ValInv_transfer s s' :
+  wfb s = true -> ValInv s -> wfb s' = true -> BF s' ->
+  stabNum s' = stabNum s ->
+  (forall m, inGraph (nd s m) = true ->
+     nkind (nd s' m) = nkind (nd s m) /\ value (nd s' m) = value (nd s m) /\
+     (nkind (nd s m) = KAlways -> decl (nd s' m) = decl (nd s m))) ->
+  (forall m, inGraph (nd s' m) = true ->
+     recomputedAt (nd s' m) = recomputedAt (nd s m) /\ changedAt (nd s' m) = changedAt (nd s m)) ->
+  (forall m, inGraph (nd s' m) = false -> recomputedAt (nd s' m) = 0 /\ changedAt (nd s' m) = 0) ->
+  (forall m, inGraph (nd s' m) = true -> isStale s' m = true -> inHeap s' m = true) ->
+  (forall m, inGraph (nd s' m) = true -> inHeap s' m = false ->
+     trivial_kind (nkind (nd s' m)) = true \/
+     (inGraph (nd s m) = true /\ inHeap s m = false /\ decl (nd s' m) = decl (nd s m))) ->
+  (forall p, inGraph (nd s' p) = true -> inHeap s p = true -> inHeap s' p = true) ->
+  ValInv s'.
+Proof.
+  intros Hwf V Hwf' HBF' Hk Fr St V0 R4 R3 R5.
+  pose proof (wfb_Struct s Hwf (vi_bf _ V)) as HS. pose proof (wfb_Struct s' Hwf' HBF') as HS'.
+  constructor.
+  - exact HBF'.
+  - intros n. unfold stamps_node. rewrite Hk. destruct (inGraph (nd s' n)) eqn:Eg.
+    + destruct (St n Eg) as [-> ->]. apply (vi_stamps _ V n).
+    + destruct (V0 n Eg) as [-> ->]. pose proof (stamps_node_true _ _ (vi_stamps _ V 0%nat)).
+      simpl. apply Z.ltb_lt. lia.
+  - exact V0.
+  - exact R4.
+  - intros n Hg Hq Hgd. destruct (R3 n Hg Hq) as [Ht|(Hg0 & Hq0 & Hd)]; [apply trivial_consistent, Ht|].
+    assert (Hpar : forall p, p ∈ parents (nd s n) <-> p ∈ parents (nd s' n)).
+    { intros p. rewrite (st_par _ HS n p Hg0), (st_par _ HS' n p Hg), Hd. reflexivity. }
+    assert (Hgd0 : guarded s None n = true).
+    { unfold guarded in *. apply forallb_intro. intros p Hp.
+      pose proof (forallb_elem _ _ _ Hgd (proj1 (Hpar p) Hp)) as Hb. cbv beta in Hb.
+      apply andb_true_iff in Hb as [H1 H2].
+      assert (Hgp' : inGraph (nd s' p) = true) by (apply (edge_reg s' HS' p n), (parent_edge s' HS'), Hpar, Hp).
+      assert (Hgp : inGraph (nd s p) = true) by (apply (edge_reg s HS p n), (parent_edge s HS), Hp).
+      destruct (St p Hgp') as [Ep1 Ep2]. destruct (St n Hg) as [En1 En2].
+      rewrite Ep2, En1 in H1. rewrite H1. simpl.
+      apply negb_true_iff in H2. apply negb_true_iff. unfold volq in *.
+      destruct (Fr p Hgp) as (Ek & _). rewrite Ek in H2. destruct (nkind (nd s p)); try reflexivity.
+      - unfold inW in *. rewrite orb_false_r in *. destruct (inHeap s p) eqn:Eh; [|reflexivity].
+        rewrite (R5 p Hgp' Eh) in H2. discriminate.
+      - rewrite Ep1, Hk in H2. exact H2. }
+    pose proof (vi_clean _ V n Hg0 Hq0 Hgd0) as Hc.
+    rewrite node_consistent_val in Hc by (apply (bf_kind s (vi_bf _ V))).
+    rewrite node_consistent_val by (apply (bf_kind s' HBF')).
+    destruct (Fr n Hg0) as (Ek & Ev & _). rewrite Ev.
+    rewrite (consistent_val_ext s s' n _ Ek Hd); [exact Hc|].
+    intros p Hp. apply valueOf__reg_ext; [exact HS|exact Fr|].
+    apply (edge_reg s HS p n). apply decl_parent; assumption.
+Qed.
+
+(** ** creating a node *)
+Lemma ValInv_newNode s k d v :
+  wfb s = true -> ValInv s ->
+  let s' := (newNode s k d None v).1 in
+  wfb s' = true ->
+  bf_node s' (next s) (fresh_node k d None v) = true ->
+  ValInv s'.
+Proof.
+  intros Hwf V s' Hwf' Hfresh. pose proof (vi_bf _ V) as HBF.
+  assert (Hno : ~ has s (next s)) by (intros Hh; pose proof (bf_has_lt s HBF _ Hh); lia).
+  assert (Hnd : forall m, nd s' m = if decide (m = next s) then fresh_node k d None v else nd s m)
+    by (apply nd_newNode).
+  assert (Hdummy : nd s (next s) = dummy) by (apply not_has_nd, Hno).
+  assert (Hold : forall m, inGraph (nd s m) = true -> nd s' m = nd s m).
+  { intros m Hg. rewrite Hnd. destruct (decide (m = next s)) as [->|]; [|reflexivity].
+    rewrite Hdummy in Hg. discriminate. }
+  assert (Hreg : forall m, inGraph (nd s' m) = true -> inGraph (nd s m) = true /\ nd s' m = nd s m).
+  { intros m. rewrite Hnd. destruct (decide (m = next s)) as [->|]; [discriminate|auto]. }
+  assert (Hch : forall m, changedAt (nd s' m) = changedAt (nd s m)).
+  { intros m. rewrite Hnd. destruct (decide (m = next s)) as [->|]; [rewrite Hdummy|]; reflexivity. }
+  assert (HBF' : BF s').
+  { split; [unfold s'; rewrite binds_newNode; apply HBF|].
+    intros m x Hx. unfold s' in Hx. rewrite nodes_newNode in Hx.
+    destruct (decide (m = next s)) as [->|Hne].
+    - rewrite lookup_insert in Hx. injection Hx as <-. exact Hfresh.
+    - rewrite lookup_insert_ne in Hx by congruence. pose proof (proj2 HBF m x Hx) as Hb.
+      apply bf_node_iff in Hb as (H1 & H2). apply bf_node_iff. split; [|exact H2].
+      unfold s'. rewrite next_newNode. lia. }
+  apply (ValInv_transfer s s' Hwf V Hwf' HBF').
+  - apply stabNum_newNode.
+  - intros m Hg. rewrite (Hold m Hg). auto.
+  - intros m Hg. destruct (Hreg m Hg) as [_ ->]. auto.
+  - intros m Hg. rewrite Hnd in *. destruct (decide (m = next s)); [auto|]. apply (vi_unreg _ V m Hg).
+  - intros m Hg Hs. destruct (Hreg m Hg) as [Hg0 Em]. unfold s'. rewrite inHeap_newNode.
+    apply (vi_owed _ V m Hg0). rewrite <- Hs. symmetry.
+    apply isStale_same; [exact Em|apply stabNum_newNode|]. intros p _. apply Hch.
+  - intros m Hg Hq. destruct (Hreg m Hg) as [Hg0 Em]. right. split; [exact Hg0|]. split.
+    + unfold s' in Hq. rewrite inHeap_newNode in Hq. exact Hq.
+    + rewrite Em. reflexivity.
+  - intros p _ Hq. unfold s'. rewrite inHeap_newNode. exact Hq.
+Qed.
+
+(** ** Var.Set / Var.Update between passes *)
+Lemma heapAdd_inHeap s n s' m : heapAdd s n = Ok s' -> inHeap s m = true -> inHeap s' m = true.
+Proof.
+  intros H Hm. apply heapAdd_inv in H as (w & Ha & ->). unfold inHeap in *. cbn.
+  unfold Heap.add in Ha. destruct (Z.ltb_spec (height (nd s n)) 0) as [|Hh]; [discriminate|].
+  destruct (if Heap.cnt (heap s) =? 0 then _ else _) as [mn mx]. injection Ha as <-.
+  unfold Heap.mem, Heap.hinOf in *. cbn. apply bool_decide_eq_true in Hm. apply bool_decide_eq_true.
+  destruct (decide (m = n)) as [->|Hne].
+  - rewrite lookup_insert. simpl. unfold unset. lia.
+  - rewrite lookup_insert_ne by congruence. exact Hm.
+Qed.
+
+Lemma heapAdd_inHeap_eq s n s' m : heapAdd s n = Ok s' -> inHeap s' m = (bool_decide (m = n) || inHeap s m).
+Proof.
+  intros H. apply heapAdd_inv in H as (w & Ha & ->). unfold inHeap. cbn.
+  unfold Heap.add in Ha. destruct (Z.ltb_spec (height (nd s n)) 0) as [|Hh]; [discriminate|].
+  destruct (if Heap.cnt (heap s) =? 0 then _ else _) as [mn mx]. injection Ha as <-.
+  unfold Heap.mem, Heap.hinOf. cbn. destruct (decide (m = n)) as [->|Hne].
+  - rewrite lookup_insert. rewrite (bool_decide_eq_true_2 (n = n)) by reflexivity. simpl. apply bool_decide_eq_true_2.
+    unfold unset. lia.
+  - rewrite lookup_insert_ne by congruence. rewrite (bool_decide_eq_false_2 (m = n)) by exact Hne. reflexivity.
+Qed.
+
+Lemma isStale_fields s s' n :
+  valid (nd s' n) = valid (nd s n) -> nkind (nd s' n) = nkind (nd s n) ->
+  recomputedAt (nd s' n) = recomputedAt (nd s n) ->
+  (forall p, p ∈ parents (nd s' n) <-> p ∈ parents (nd s n)) ->
+  (forall p, p ∈ parents (nd s n) -> changedAt (nd s' p) = changedAt (nd s p)) ->
+  isStale s' n = isStale s n.
+Proof.
+  intros Ev Ek Er Hpar Hp. unfold isStale. rewrite Ev, Ek, Er. f_equal.
+  assert (Hsw : staleWrtParents s' (nd s' n) = staleWrtParents s (nd s n)).
+  { unfold staleWrtParents. rewrite Er. apply eq_true_iff_eq. rewrite !existsb_elem.
+    split; intros (p & Hin & Hc); exists p.
+    - apply Hpar in Hin. split; [exact Hin|]. rewrite <- (Hp p Hin). exact Hc.
+    - split; [apply Hpar, Hin|]. rewrite (Hp p Hin). exact Hc. }
+  destruct (nkind (nd s n)); try reflexivity; rewrite Hsw; reflexivity.
+Qed.
+
+(** what a write between passes does *)
+Record setPost (s : state) (v : nid) (s' : state) : Prop := {
+  se_other : forall m, m <> v -> nd s' m = nd s m;
+  se_self : exists a, nd s' v = nd s v <| value := value (nd s' v) |> <| setAt := a |>;
+  se_fields : same_fields s s';
+  se_nodes_dom : forall m, has s' m <-> has s m;
+  se_heap : forall m, inHeap s' m = inHeap s m \/ (m = v /\ inHeap s' v = true);
+  se_queued : inGraph (nd s v) = true -> value (nd s' v) <> value (nd s v) -> inHeap s' v = true
+}.
+
+Lemma varSet_post s v x s' :
+  Struct s -> (forall n, inGraph (nd s n) = true -> 0 <= height (nd s n)) ->
+  status s = 0 -> has s v -> varSet s v x = Ok s' -> setPost s v s'.
+Proof.
+  intros HS Hh Hst Hv H. unfold varSet in H.
+  assert (Hrefl : setPost s v s).
+  { constructor; auto using same_fields_refl; try reflexivity; try congruence.
+    exists (setAt (nd s v)). destruct (nd s v); reflexivity. }
+  destruct (_ && _ && _); [injection H as <-; exact Hrefl|].
+  rewrite Hst in H. simpl in H.
+  set (s1 := upd s v (set value (fun _ => x))) in *.
+  assert (Hnd1 : nd s1 v = nd s v <| value := x |>) by (apply nd_upd_eq, Hv).
+  assert (Hne1 : forall m, m <> v -> nd s1 m = nd s m) by (intros m Hm; apply nd_upd_ne, Hm).
+  assert (P1 : setPost s v s1 \/ inGraph (nd s v) = true).
+  { destruct (inGraph (nd s v)) eqn:Eg; [auto|]. left. constructor.
+    - exact Hne1.
+    - exists (setAt (nd s v)). rewrite Hnd1. destruct (nd s v); reflexivity.
+    - repeat split.
+    - intros m. apply has_upd.
+    - intros m. left. reflexivity.
+    - congruence. }
+  assert (Hnec : isNecessary (nd s1 v) = inGraph (nd s v)).
+  { rewrite (st_nec _ HS v), Hnd1. reflexivity. }
+  rewrite Hnec in H. destruct (inGraph (nd s v)) eqn:Eg.
+  2:{ injection H as <-. destruct P1 as [P1|]; [exact P1|discriminate]. }
+  unfold setStale in H. assert (Hhe : height (nd s1 v) = height (nd s v)) by (rewrite Hnd1; reflexivity).
+  rewrite Hhe in H. destruct (Z.eqb_spec (height (nd s v)) unset) as [E|_].
+  { pose proof (Hh v Eg). unfold unset in E. lia. }
+  set (s2 := upd s1 v (set setAt (fun _ => stabNum s1))) in *.
+  assert (Hv1 : has s1 v) by (apply has_upd, Hv).
+  assert (Hnd2 : nd s2 v = nd s v <| value := x |> <| setAt := stabNum s |>).
+  { unfold s2. rewrite nd_upd_eq by exact Hv1. rewrite Hnd1. reflexivity. }
+  assert (Hne2 : forall m, m <> v -> nd s2 m = nd s m).
+  { intros m Hm. unfold s2. rewrite nd_upd_ne by exact Hm. apply Hne1, Hm. }
+  assert (P2 : forall s3, only_heap s2 s3 ->
+             (forall m, inHeap s3 m = inHeap s m \/ (m = v /\ inHeap s3 v = true)) ->
+             inHeap s3 v = true -> setPost s v s3).
+  { intros s3 O Hq Hqv. constructor.
+    - intros m Hm. rewrite (oh_nd _ _ O). apply Hne2, Hm.
+    - exists (stabNum s). rewrite (oh_nd _ _ O), Hnd2. reflexivity.
+    - unfold same_fields. rewrite (oh_binds _ _ O), (oh_next _ _ O), (oh_reg _ _ O), (oh_obs _ _ O),
+        (oh_adj _ _ O), (oh_invq _ _ O), (oh_stabNum _ _ O), (oh_status _ _ O), (oh_numNodes _ _ O),
+        (oh_setDuring _ _ O), (oh_setRemoved _ _ O), (oh_maxHeight _ _ O). repeat split.
+    - intros m. rewrite (oh_has _ _ O). unfold s2. rewrite has_upd. apply has_upd.
+    - exact Hq.
+    - intros _ _. exact Hqv. }
+  change (inHeap s2 v) with (inHeap s v) in H. destruct (inHeap s v) eqn:Eq.
+  - injection H as <-. apply P2; [apply only_heap_refl|intros m; left; reflexivity|exact Eq].
+  - apply P2.
+    + apply heapAdd_inv in H as (w & _ & ->). apply only_heap_set.
+    + intros m. destruct (decide (m = v)) as [Hm|Hm].
+      * right. split; [exact Hm|].
+        rewrite (heapAdd_inHeap_eq _ _ _ v H), (bool_decide_eq_true_2 (v = v)) by reflexivity. reflexivity.
+      * left. rewrite (heapAdd_inHeap_eq _ _ _ m H), (bool_decide_eq_false_2 (m = v)) by exact Hm. reflexivity.
+    + rewrite (heapAdd_inHeap_eq _ _ _ v H), (bool_decide_eq_true_2 (v = v)) by reflexivity. reflexivity.
+Qed.
+
+Lemma ValInv_setPost s v s' :
+  wfb s = true -> ValInv s -> (exists e, nkind (nd s v) = KVar e) -> setPost s v s' -> ValInv s'.
+Proof.
+  intros Hwf V [e Kv] P. pose proof (vi_bf _ V) as HBF. pose proof (wfb_Struct s Hwf HBF) as HS.
+  destruct (se_fields _ _ _ P) as (Fb & Fn & _ & _ & _ & _ & Fk & _).
+  destruct (se_self _ _ _ P) as [a Eself].
+  assert (Hkind : forall m, nkind (nd s' m) = nkind (nd s m)).
+  { intros m. destruct (decide (m = v)) as [->|Hm]; [rewrite Eself; reflexivity|rewrite (se_other _ _ _ P m Hm); reflexivity]. }
+  assert (Hsame : forall m, m <> v -> nd s' m = nd s m) by apply P.
+  assert (Hstamp : forall m, recomputedAt (nd s' m) = recomputedAt (nd s m) /\ changedAt (nd s' m) = changedAt (nd s m)
+                             /\ inGraph (nd s' m) = inGraph (nd s m) /\ parents (nd s' m) = parents (nd s m)
+                             /\ valid (nd s' m) = valid (nd s m) /\ decl (nd s' m) = decl (nd s m)
+                             /\ scope (nd s' m) = scope (nd s m)).
+  { intros m. destruct (decide (m = v)) as [->|Hm]; [rewrite Eself; repeat split|rewrite (Hsame m Hm); repeat split]. }
+  assert (Hq : forall m, inHeap s m = true -> inHeap s' m = true).
+  { intros m Hm. destruct (se_heap _ _ _ P m) as [->|[-> ?]]; assumption. }
+  assert (Hstale : forall m, isStale s' m = isStale s m).
+  { intros m. destruct (Hstamp m) as (E1 & _ & _ & E4 & E5 & _). apply isStale_fields; try assumption.
+    - apply Hkind.
+    - rewrite E4. reflexivity.
+    - intros p _. apply (Hstamp p). }
+  constructor.
+  - split; [rewrite Fb; apply HBF|]. intros m x Hx. assert (Hm' : has s' m) by (exists x; exact Hx).
+    assert (Hm : has s m) by (apply (se_nodes_dom _ _ _ P), Hm').
+    rewrite <- (nd_lookup _ _ _ Hx). pose proof (bf_node_nd s HBF m Hm) as Hb.
+    apply bf_node_iff in Hb as (H1 & H2 & H3 & H4 & H5 & H6 & H7). apply bf_node_iff.
+    destruct (Hstamp m) as (_ & _ & _ & _ & E5 & E6 & E7).
+    rewrite Fn, Hkind, E5, E7. repeat split; try assumption.
+    + unfold arity_ok in *. rewrite Hkind, E6. exact H5.
+    + unfold cutalways_zero in *. rewrite Hkind. destruct (decide (m = v)) as [->|Hm2].
+      * rewrite Kv. reflexivity.
+      * rewrite (Hsame m Hm2). exact H6.
+    + unfold always_lt in *. rewrite Hkind, E6. exact H7.
+  - intros m. unfold stamps_node. destruct (Hstamp m) as (-> & -> & _). rewrite Fk. apply (vi_stamps _ V m).
+  - intros m. destruct (Hstamp m) as (-> & -> & -> & _). apply (vi_unreg _ V m).
+  - intros m Hg Hs. destruct (Hstamp m) as (_ & _ & Eg & _). rewrite Eg in Hg. rewrite Hstale in Hs.
+    apply Hq. apply (vi_owed _ V m Hg Hs).
+  - intros n Hg HnW Hgd. destruct (Hstamp n) as (En1 & _ & Eg & Ep & _ & Ed & _). rewrite Eg in Hg.
+    destruct (decide (n = v)) as [->|Hnv].
+    { apply trivial_consistent. rewrite Hkind, Kv. reflexivity. }
+    assert (HnW0 : inHeap s n = false).
+    { destruct (inHeap s n) eqn:Eq; [|reflexivity]. rewrite (Hq n Eq) in HnW. discriminate. }
+    assert (Hgd_p : forall p, p ∈ parents (nd s n) ->
+              changedAt (nd s p) <= recomputedAt (nd s n) /\ volq s' None p = false).
+    { intros p Hp. unfold guarded in Hgd. rewrite Ep in Hgd.
+      pose proof (forallb_elem _ _ _ Hgd Hp) as Hb. cbv beta in Hb. apply andb_true_iff in Hb as [H1 H2].
+      apply Z.leb_le in H1. apply negb_true_iff in H2. destruct (Hstamp p) as (_ & Ec & _).
+      rewrite Ec, En1 in H1. auto. }
+    assert (Hgd0 : guarded s None n = true).
+    { unfold guarded. apply forallb_intro. intros p Hp. destruct (Hgd_p p Hp) as [H1 H2].
+      apply andb_true_iff. split; [apply Z.leb_le; exact H1|]. apply negb_true_iff.
+      unfold volq in *. rewrite Hkind in H2. destruct (nkind (nd s p)); try reflexivity.
+      - unfold inW in *. rewrite orb_false_r in *. destruct (inHeap s p) eqn:Eq; [|reflexivity].
+        rewrite (Hq p Eq) in H2. discriminate.
+      - destruct (Hstamp p) as (Er & _). rewrite Er, Fk in H2. exact H2. }
+    pose proof (vi_clean _ V n Hg HnW0 Hgd0) as Hc.
+    rewrite node_consistent_val in Hc by (apply (bf_kind s HBF)).
+    rewrite node_consistent_val by (rewrite Hkind; apply (bf_kind s HBF)).
+    rewrite (Hsame n Hnv).
+    rewrite (consistent_val_ext s s' n _ (Hkind n) Ed); [exact Hc|].
+    intros p Hp. assert (Hpar : p ∈ parents (nd s n)) by (apply (st_par _ HS); assumption).
+    destruct (Hgd_p p Hpar) as [_ Hvq].
+    destruct (decide (value (nd s' v) = value (nd s v))) as [Ev|Ev].
+    { apply valueOf_ext. intros m. split; [apply Hkind|]. split; [apply (Hstamp m)|].
+      destruct (decide (m = v)) as [->|Hm]; [exact Ev|rewrite (Hsame m Hm); reflexivity]. }
+    apply (valueOf_changed s s' v p HS).
+    + intros m. split; [apply Hkind|apply (Hstamp m)].
+    + intros m Hm. rewrite (Hsame m Hm). reflexivity.
+    + apply (edge_reg s HS p n), (parent_edge s HS), Hpar.
+    + intros ->. assert (Hgv : inGraph (nd s v) = true) by (apply (edge_reg s HS v n), (parent_edge s HS), Hpar).
+      unfold volq in Hvq. rewrite Hkind, Kv in Hvq. unfold inW in Hvq. rewrite orb_false_r in Hvq.
+      rewrite (se_queued _ _ _ P Hgv Ev) in Hvq. discriminate.
+    + intros [Ka _]. unfold volq in Hvq. rewrite Hkind, Ka in Hvq. apply Z.ltb_ge in Hvq.
+      destruct (Hstamp p) as (Er & _). rewrite Er, Fk in Hvq.
+      pose proof (stamps_node_true _ _ (vi_stamps _ V p)). lia.
+Qed.
+
+Lemma ValInv_varSet s v x s' :
+  wfb s = true -> ValInv s -> isVar s v = true -> varSet s v x = Ok s' -> ValInv s'.
+Proof.
+  intros Hwf V Hv H. destruct (isVar_true _ _ Hv) as [Hhas Hk].
+  pose proof (wfb_Struct s Hwf (vi_bf _ V)) as HS.
+  apply (ValInv_setPost s v s' Hwf V Hk).
+  apply (varSet_post s v x s' HS (st_hnonneg _ HS) (proj1 (wfb_transients _ Hwf)) Hhas H).
+Qed.
+
+Lemma ValInv_varUpdate s v d s' :
+  wfb s = true -> ValInv s -> isVar s v = true -> varUpdate s v d = Ok s' -> ValInv s'.
+Proof. unfold varUpdate. intros Hwf V Hv H. eapply ValInv_varSet; eauto. Qed.
+
+(** ** Observe / AddInput: what becoming necessary and adding an edge never touch *)
+Definition static_eq (x y : node) : Prop :=
+  nkind y = nkind x /\ decl y = decl x /\ scope y = scope x /\ valid y = valid x /\ value y = value x /\
+  recomputedAt y = recomputedAt x /\ changedAt y = changedAt x.
+
+Lemma static_eq_refl x : static_eq x x.
+Proof. repeat split. Qed.
+Lemma static_eq_trans x y z : static_eq x y -> static_eq y z -> static_eq x z.
+Proof. unfold static_eq. intuition congruence. Qed.
+
+Record gfr (s s' : state) : Prop := {
+  g_static : forall m, static_eq (nd s m) (nd s' m);
+  g_fields : binds s' = binds s /\ next s' = next s /\ stabNum s' = stabNum s;
+  g_has : forall m, has s' m <-> has s m;
+  g_reg : forall m, inGraph (nd s m) = true -> inGraph (nd s' m) = true;
+  g_heap : forall m, inHeap s m = true -> inHeap s' m = true;
+  g_invq : (forall m, valid (nd s m) = true) -> invq s = [] -> invq s' = []
+}.
+
+Lemma gfr_refl s : gfr s s.
+Proof. constructor; auto using static_eq_refl; try reflexivity. Qed.
+
+Lemma gfr_trans s1 s2 s3 : gfr s1 s2 -> gfr s2 s3 -> gfr s1 s3.
+Proof.
+  intros A B. constructor.
+  - intros m. eapply static_eq_trans; [apply A|apply B].
+  - destruct (g_fields _ _ A) as (? & ? & ?), (g_fields _ _ B) as (? & ? & ?). repeat split; congruence.
+  - intros m. rewrite (g_has _ _ B), (g_has _ _ A). reflexivity.
+  - intros m Hm. apply B, A, Hm.
+  - intros m Hm. apply B, A, Hm.
+  - intros Hv Hi. apply (g_invq _ _ B); [|apply (g_invq _ _ A); assumption].
+    intros m. destruct (g_static _ _ A m) as (_ & _ & _ & -> & _). apply Hv.
+Qed.
+
+(* a step that changes node fields outside [static_eq] and [inGraph], and nothing else relevant *)
+Lemma gfr_nodes s s' :
+  (forall m, static_eq (nd s m) (nd s' m) /\ inGraph (nd s' m) = inGraph (nd s m)) ->
+  (forall m, has s' m <-> has s m) ->
+  binds s' = binds s -> next s' = next s -> stabNum s' = stabNum s -> heap s' = heap s -> invq s' = invq s ->
+  gfr s s'.
+Proof.
+  intros Hn Hh Hb Hnx Hk Hhp Hi. constructor; auto.
+  - intros m. apply Hn.
+  - intros m Hm. rewrite (proj2 (Hn m)). exact Hm.
+  - intros m. unfold inHeap. rewrite Hhp. auto.
+  - intros _ H0. rewrite Hi. exact H0.
+Qed.
+
+Lemma gfr_upd s n f :
+  (forall x, static_eq x (f x) /\ inGraph (f x) = inGraph x) -> gfr s (upd s n f).
+Proof.
+  intros Hf. apply gfr_nodes; try reflexivity; [|intros m; apply has_upd].
+  intros m. destruct (decide (has s n)) as [Hn|Hn]; [|rewrite upd_missing by exact Hn; split; [apply static_eq_refl|reflexivity]].
+  rewrite nd_upd by exact Hn. destruct (decide (m = n)) as [->|]; [apply Hf|split; [apply static_eq_refl|reflexivity]].
+Qed.
+
+Lemma gfr_emit s e : gfr s (emit e s).
+Proof. apply gfr_nodes; try reflexivity. intros m. split; [apply static_eq_refl|reflexivity]. Qed.
+
+Lemma gfr_link s c p : gfr s (link s c p).
+Proof.
+  unfold link. eapply gfr_trans; apply gfr_upd; intros x; repeat split.
+Qed.
+
+Lemma gfr_addNode s n : gfr s (addNode s n).
+Proof.
+  unfold addNode. destruct (inGraph (nd s n)) eqn:E; [apply gfr_refl|].
+  constructor; try reflexivity.
+  - intros m. change (static_eq (nd s m) (nd (upd s n (set inGraph (fun _ => true))) m)).
+    destruct (decide (has s n)) as [Hn|Hn]; [|rewrite upd_missing by exact Hn; apply static_eq_refl].
+    rewrite nd_upd by exact Hn. destruct (decide (m = n)) as [->|]; [|apply static_eq_refl]. repeat split.
+  - repeat split.
+  - intros m. change (has (upd s n (set inGraph (fun _ => true))) m <-> has s m). apply has_upd.
+  - intros m Hm. change (inGraph (nd (upd s n (set inGraph (fun _ => true))) m) = true).
+    destruct (decide (has s n)) as [Hn|Hn]; [|rewrite upd_missing by exact Hn; exact Hm].
+    rewrite nd_upd by exact Hn. destruct (decide (m = n)); [reflexivity|exact Hm].
+  - auto.
+  - auto.
+Qed.
+
+Lemma gfr_setHeight s n h s' e : setHeight s n h = Ok (s', e) -> gfr s s'.
+Proof.
+  intros H. destruct e as [x|].
+  - apply setHeight_err in H as [_ ->]. apply gfr_refl.
+  - apply gfr_nodes.
+    + intros m. split; [repeat split; apply (proj_nd_setHeight s n h s' H); reflexivity|].
+      apply (proj_nd_setHeight s n h s' H inGraph). reflexivity.
+    + intros m. apply (has_setHeight s n h s' H).
+    + apply (binds_setHeight s n h s' H).
+    + apply (next_setHeight s n h s' H).
+    + apply (stabNum_setHeight s n h s' H).
+    + apply (heap_setHeight s n h s' H).
+    + apply (invq_setHeight s n h s' H).
+Qed.
+
+Lemma gfr_only_heap s s' : only_heap s s' -> (forall m, inHeap s m = true -> inHeap s' m = true) -> gfr s s'.
+Proof.
+  intros O Hq. constructor.
+  - intros m. rewrite (oh_nd _ _ O). apply static_eq_refl.
+  - rewrite (oh_binds _ _ O), (oh_next _ _ O), (oh_stabNum _ _ O). repeat split.
+  - intros m. apply (oh_has _ _ O).
+  - intros m. rewrite (oh_nd _ _ O). auto.
+  - exact Hq.
+  - intros _. rewrite (oh_invq _ _ O). auto.
+Qed.
+
+Lemma heapAddIfNotPresent_mem s n s' : heapAddIfNotPresent s n = Ok s' ->
+  only_heap s s' /\ inHeap s' n = true /\ forall m, inHeap s m = true -> inHeap s' m = true.
+Proof.
+  unfold heapAddIfNotPresent. destruct (inHeap s n) eqn:E.
+  - intros [= <-]. split; [apply only_heap_refl|]. auto.
+  - intros H. split; [apply heapAdd_inv in H as (w & _ & ->); apply only_heap_set|]. split.
+    + rewrite (heapAdd_inHeap_eq _ _ _ n H), (bool_decide_eq_true_2 (n = n)) by reflexivity. reflexivity.
+    + intros m Hm. eapply heapAdd_inHeap; eauto.
+Qed.
+
+Lemma gfr_heapAddIfNotPresent s n s' : heapAddIfNotPresent s n = Ok s' -> gfr s s'.
+Proof. intros H. destruct (heapAddIfNotPresent_mem _ _ _ H) as (O & _ & Hq). apply gfr_only_heap; assumption. Qed.
+
+Definition staleK (k : kind) : bool := match k with KVar _ => false | _ => true end.
+
+(* the nodes that joined the graph and owe a first computation are queued *)
+Definition newQueued (s s' : state) : Prop :=
+  forall m, inGraph (nd s m) = false -> inGraph (nd s' m) = true ->
+    recomputedAt (nd s m) = 0 -> valid (nd s m) = true -> staleK (nkind (nd s m)) = true ->
+    inHeap s' m = true.
+
+Lemma newQueued_refl s : newQueued s s.
+Proof. intros m H1 H2. congruence. Qed.
+
+Lemma newQueued_trans s1 s2 s3 : gfr s1 s2 -> gfr s2 s3 -> newQueued s1 s2 -> newQueued s2 s3 -> newQueued s1 s3.
+Proof.
+  intros G12 G23 A B m H1 H3 Hr Hv Hk. destruct (inGraph (nd s2 m)) eqn:E2.
+  - apply (g_heap _ _ G23). apply A; assumption.
+  - destruct (g_static _ _ G12 m) as (Ek & _ & _ & Ev & _ & Er & _). apply B; try assumption; congruence.
+Qed.
+
+Lemma isStale_fresh s n : recomputedAt (nd s n) = 0 -> valid (nd s n) = true ->
+  staleK (nkind (nd s n)) = true -> isStale s n = true.
+Proof.
+  intros Hr Hv Hk. unfold isStale. rewrite Hv, Hr. simpl. destruct (nkind (nd s n)); try reflexivity. discriminate.
+Qed.
+
+Lemma BN_spec fuel : forall s n s' e,
+  becameNecessaryRecursive fuel s n = Ok (s', e) -> gfr s s' /\ (e = None -> newQueued s s').
+Proof.
+  induction fuel as [|fuel IH]; intros s n s' e H; [discriminate|].
+  cbn [becameNecessaryRecursive] in H.
+  set (s1 := addNode s n) in *.
+  set (s2 := if inGraph (nd s n) then s1 else emit (EvNec n) s1) in *.
+  assert (G2 : gfr s s2).
+  { eapply gfr_trans; [apply gfr_addNode|]. unfold s2. destruct (inGraph (nd s n)); [apply gfr_refl|apply gfr_emit]. }
+  assert (I2 : forall m, m <> n -> inGraph (nd s2 m) = inGraph (nd s m)).
+  { intros m Hm. unfold s2. destruct (inGraph (nd s n)); [|rewrite nd_emit]; unfold s1; rewrite nd_addNode_ne by exact Hm; reflexivity. }
+  apply ebind_inv in H as (s3 & e3 & E3 & [[-> H]|(Hne & -> & ->)]).
+  2:{ split; [|intros ->; congruence]. eapply gfr_trans; [exact G2|eapply gfr_setHeight; eauto]. }
+  assert (G3 : gfr s s3) by (eapply gfr_trans; [exact G2|eapply gfr_setHeight; eauto]).
+  assert (I3 : forall m, m <> n -> inGraph (nd s3 m) = inGraph (nd s m)).
+  { intros m Hm. rewrite <- (I2 m Hm). apply (proj_nd_setHeight _ _ _ _ E3 inGraph). reflexivity. }
+  (* the loop over the declared inputs *)
+  set (body := fun (s : state) (p : nid) => _ : M) in H.
+  apply ebind_inv in H as (s4 & e4 & E4 & Hfin).
+  pose (J := fun (_ : list nid) (st : state) =>
+    gfr s st /\ forall m, m <> n -> inGraph (nd s m) = false -> inGraph (nd st m) = true ->
+      recomputedAt (nd s m) = 0 -> valid (nd s m) = true -> staleK (nkind (nd s m)) = true -> inHeap st m = true).
+  assert (HJ : match e4 with None => J [] s4 | Some _ => gfr s s4 end).
+  { apply (efold_inv J (fun st _ => gfr s st) body (decl (nd s3 n)) s3 s4 e4); [| |exact E4].
+    - split; [exact G3|]. intros m Hm H1 H2. rewrite (I3 m Hm) in H2. congruence.
+    - intros p l' st st1 e1 [Gst Jst] Hb. unfold body in Hb.
+      set (sa := link st n p) in *.
+      set (sb := if valid (nd sa p) then sa else sa <| invq := invq sa ++ [n] |>) in *.
+      assert (Gb : gfr st sb).
+      { eapply gfr_trans; [apply gfr_link|]. fold sa. unfold sb. destruct (valid (nd sa p)) eqn:Ev; [apply gfr_refl|].
+        constructor.
+        - intros m. apply static_eq_refl.
+        - repeat split.
+        - reflexivity.
+        - auto.
+        - auto.
+        - intros Hall. specialize (Hall p). fold sa in Hall. congruence. }
+      assert (Ib : forall m, inGraph (nd sb m) = inGraph (nd st m)).
+      { intros m. unfold sb. destruct (valid (nd sa p)); unfold sa; [|change (nd (link st n p <| invq := _ |>) m) with (nd (link st n p) m)];
+          apply inGraph_nd_link. }
+      apply ebind_inv in Hb as (sc & ec & Ec & [[-> Hb]|(Hne & -> & ->)]).
+      + assert (Gc : gfr sb sc /\ newQueued sb sc).
+        { destruct (isNecessary (nd st p)).
+          - apply ok_inv in Ec as [-> _]. split; [apply gfr_refl|apply newQueued_refl].
+          - destruct (IH _ _ _ _ Ec) as [Gc Qc]. split; [exact Gc|apply Qc; reflexivity]. }
+        destruct Gc as [Gc Qc].
+        assert (Gd : gfr sc st1).
+        { destruct (height (nd sc p) >=? height (nd sc n)); [eapply gfr_setHeight; eauto|].
+          apply ok_inv in Hb as [-> _]. apply gfr_refl. }
+        assert (Id : forall m, inGraph (nd st1 m) = inGraph (nd sc m)).
+        { intros m. destruct (height (nd sc p) >=? height (nd sc n)).
+          - destruct e1 as [x|]; [apply setHeight_err in Hb as [_ ->]; reflexivity|].
+            apply (proj_nd_setHeight _ _ _ _ Hb inGraph). reflexivity.
+          - apply ok_inv in Hb as [-> _]. reflexivity. }
+        assert (Gall : gfr s st1) by (eapply gfr_trans; [exact Gst|]; eapply gfr_trans; [exact Gb|]; eapply gfr_trans; eauto).
+        destruct e1; [exact Gall|]. split; [exact Gall|].
+        intros m Hm H1 H2 Hr Hv Hk. apply (g_heap _ _ Gd). rewrite Id in H2.
+        destruct (inGraph (nd st m)) eqn:Est.
+        * apply (g_heap _ _ Gc), (g_heap _ _ Gb). apply Jst; assumption.
+        * destruct (g_static _ _ (gfr_trans _ _ _ Gst Gb) m) as (Ek & _ & _ & Ev & _ & Er & _).
+          apply Qc; [rewrite Ib; exact Est|exact H2|congruence..].
+      + destruct ec as [x|]; [|congruence].
+        assert (Gc : gfr sb sc).
+        { destruct (isNecessary (nd st p)); [apply ok_inv in Ec as [_ ?]; discriminate|]. apply (IH _ _ _ _ Ec). }
+        eapply gfr_trans; [exact Gst|]. eapply gfr_trans; eauto. }
+  destruct Hfin as [[-> Hfin]|(Hne & -> & ->)].
+  2:{ destruct e4; [|congruence]. split; [exact HJ|intros; discriminate]. }
+  destruct HJ as [G4 J4].
+  destruct (isStale s4 n) eqn:Es.
+  - apply lift_inv in Hfin as [Hfin ->]. destruct (heapAddIfNotPresent_mem _ _ _ Hfin) as (O & Hn & Hq).
+    assert (G5 : gfr s4 s') by (apply gfr_only_heap; assumption).
+    split; [eapply gfr_trans; eauto|]. intros _ m H1 H2 Hr Hv Hk. rewrite (oh_nd _ _ O) in H2.
+    destruct (decide (m = n)) as [->|Hm]; [exact Hn|]. apply Hq. apply J4; assumption.
+  - apply ok_inv in Hfin as [-> ->]. split; [exact G4|]. intros _ m H1 H2 Hr Hv Hk.
+    destruct (decide (m = n)) as [->|Hm]; [|apply J4; assumption].
+    exfalso. destruct (g_static _ _ G4 n) as (Ek & _ & _ & Ev & _ & Er & _).
+    rewrite isStale_fresh in Es; [discriminate|congruence..].
+Qed.
+
+(** the generic argument for operations that only add nodes / edges to the graph *)
+Lemma ValInv_grow s s' :
+  wfb s = true -> ValInv s -> wfb s' = true ->
+  (forall m, nkind (nd s' m) = nkind (nd s m) /\ scope (nd s' m) = scope (nd s m) /\
+             valid (nd s' m) = valid (nd s m) /\ value (nd s' m) = value (nd s m) /\
+             recomputedAt (nd s' m) = recomputedAt (nd s m) /\ changedAt (nd s' m) = changedAt (nd s m)) ->
+  (forall m, decl (nd s' m) = decl (nd s m) \/
+             ((exists f, nkind (nd s m) = KMapN f) /\ (inGraph (nd s' m) = true -> inHeap s' m = true))) ->
+  (forall m, has s' m <-> has s m) -> binds s' = binds s -> stabNum s' = stabNum s ->
+  (next s <= next s')%nat ->
+  (forall m, inGraph (nd s m) = true -> inGraph (nd s' m) = true) ->
+  (forall m, inHeap s m = true -> inHeap s' m = true) ->
+  newQueued s s' ->
+  ValInv s'.
+Proof.
+  intros Hwf V Hwf' G1 G2 Hhas Hb Hk Hnx G4 G5 G6. pose proof (vi_bf _ V) as HBF.
+  assert (HBF' : BF s').
+  { split; [rewrite Hb; apply HBF|]. intros m x Hx. assert (Hm' : has s' m) by (exists x; exact Hx).
+    assert (Hm : has s m) by (apply Hhas, Hm'). rewrite <- (nd_lookup _ _ _ Hx).
+    pose proof (bf_node_nd s HBF m Hm) as Hbn. apply bf_node_iff in Hbn as (H1 & H2 & H3 & H4 & H5 & H6 & H7).
+    destruct (G1 m) as (Ek & Es & Ev & Eva & _). apply bf_node_iff. rewrite Ek, Es, Ev.
+    repeat split; try assumption; try lia.
+    - unfold arity_ok in *. rewrite Ek. destruct (G2 m) as [->|[[f Kf] _]]; [exact H5|]. rewrite Kf. reflexivity.
+    - unfold cutalways_zero in *. rewrite Ek, Eva. exact H6.
+    - unfold always_lt in *. rewrite Ek. destruct (G2 m) as [->|[[f Kf] _]]; [exact H7|]. rewrite Kf. reflexivity. }
+  pose proof (wfb_Struct s Hwf HBF) as HS. pose proof (wfb_Struct s' Hwf' HBF') as HS'.
+  assert (Hpar : forall m, inGraph (nd s m) = true -> inGraph (nd s' m) = true -> decl (nd s' m) = decl (nd s m) ->
+                 forall p, p ∈ parents (nd s' m) <-> p ∈ parents (nd s m)).
+  { intros m Hg Hg' Hd p. rewrite (st_par _ HS m p Hg), (st_par _ HS' m p Hg'), Hd. reflexivity. }
+  assert (Hnew : forall m, inGraph (nd s m) = false -> inGraph (nd s' m) = true ->
+                 staleK (nkind (nd s m)) = true -> inHeap s' m = true).
+  { intros m H1 H2 H3. apply (G6 m H1 H2); [apply (vi_unreg _ V m H1)|apply (bf_valid s HBF)|exact H3]. }
+  apply (ValInv_transfer s s' Hwf V Hwf' HBF' Hk).
+  - intros m Hg. destruct (G1 m) as (Ek & _ & _ & Eva & _). split; [exact Ek|]. split; [exact Eva|].
+    intros Ka. destruct (G2 m) as [?|[[f Kf] _]]; [assumption|congruence].
+  - intros m _. destruct (G1 m) as (_ & _ & _ & _ & Er & Ec). auto.
+  - intros m Hg'. destruct (G1 m) as (_ & _ & _ & _ & -> & ->). apply (vi_unreg _ V m).
+    destruct (inGraph (nd s m)) eqn:Eg; [|reflexivity]. rewrite (G4 m Eg) in Hg'. discriminate.
+  - intros m Hg' Hs. destruct (G2 m) as [Hd|[_ Hq]]; [|apply Hq, Hg'].
+    destruct (inGraph (nd s m)) eqn:Eg.
+    + apply G5. apply (vi_owed _ V m Eg). rewrite <- Hs. symmetry.
+      destruct (G1 m) as (Ek & _ & Ev & _ & Er & _).
+      apply isStale_fields; try assumption; [apply (Hpar m Eg Hg' Hd)|]. intros p _. apply (G1 p).
+    + apply (Hnew m Eg Hg'). unfold isStale in Hs. destruct (G1 m) as (Ek & _). rewrite Ek in Hs.
+      destruct (nkind (nd s m)); try reflexivity. rewrite andb_false_r in Hs. discriminate.
+  - intros m Hg' Hq. destruct (G2 m) as [Hd|[_ Hq']]; [|rewrite (Hq' Hg') in Hq; discriminate].
+    destruct (inGraph (nd s m)) eqn:Eg.
+    + right. split; [reflexivity|]. split; [|exact Hd].
+      destruct (inHeap s m) eqn:Eq; [|reflexivity]. rewrite (G5 m Eq) in Hq. discriminate.
+    + left. destruct (G1 m) as (Ek & _). rewrite Ek.
+      destruct (staleK (nkind (nd s m))) eqn:Ks; [rewrite (Hnew m Eg Hg' Ks) in Hq; discriminate|].
+      destruct (nkind (nd s m)); try discriminate Ks. reflexivity.
+  - intros p _ Hq. apply G5, Hq.
+Qed.
+
+Lemma propagateInvalidity_nil fuel s s' : invq s = [] -> propagateInvalidity fuel s = Ok s' -> s' = s.
+Proof. intros Hi H. destruct fuel; [discriminate|]. simpl in H. rewrite Hi in H. congruence. Qed.
+
+Lemma ValInv_observe s n s' :
+  wfb s = true -> ValInv s -> wfb s' = true -> observe s n = Ok (s', None) -> ValInv s'.
+Proof.
+  intros Hwf V Hwf' H. pose proof (vi_bf _ V) as HBF.
+  assert (Hiq : invq s = []).
+  { destruct (wfb_all _ Hwf) as (_ & _ & _ & _ & _ & _ & _ & Ht & _). unfold transients_empty in Ht.
+    rewrite !andb_true_iff in Ht. destruct Ht as [[[[[[[_ Hi] _] _] _] _] _] _].
+    apply bool_decide_eq_true in Hi. exact Hi. }
+  unfold observe in H.
+  set (s1 := s <| next := S (next s) |> <| obs := <[next s := n]> (obs s) |> <| numNodes := numNodes s + 1 |>) in *.
+  set (s2 := upd s1 n (set observers (fun l => l ++ [next s]))) in *.
+  assert (G2 : gfr s1 s2) by (apply gfr_upd; intros x; repeat split).
+  assert (I2 : forall m, inGraph (nd s2 m) = inGraph (nd s m)).
+  { intros m. unfold s2. rewrite (nd_upd_proj inGraph) by reflexivity. reflexivity. }
+  assert (Hfin : exists s3, gfr s2 s3 /\ newQueued s2 s3 /\ s' = s3).
+  { destruct (isNecessary (nd s1 n)).
+    - apply ok_inv in H as [-> _]. exists s2. split; [apply gfr_refl|]. split; [apply newQueued_refl|reflexivity].
+    - apply ebind_inv in H as (s3 & e3 & E3 & [[-> H]|(Hne & _ & He)]); [|congruence].
+      destruct (BN_spec _ _ _ _ _ E3) as [G3 Q3]. apply lift_inv in H as [H _].
+      exists s3. split; [exact G3|]. split; [apply Q3; reflexivity|].
+      apply (propagateInvalidity_nil _ _ _ (g_invq _ _ (gfr_trans _ _ _ G2 G3)
+               (fun m => bf_valid s HBF m) Hiq) H). }
+  destruct Hfin as (s3 & G3 & Q3 & ->).
+  pose proof (gfr_trans _ _ _ G2 G3) as G.
+  apply (ValInv_grow s s3 Hwf V Hwf').
+  - intros m. destruct (g_static _ _ G m) as (E1 & E2 & E3 & E4 & E5 & E6 & E7). repeat split; assumption.
+  - intros m. left. apply (g_static _ _ G m).
+  - intros m. apply (g_has _ _ G m).
+  - apply (g_fields _ _ G).
+  - apply (g_fields _ _ G).
+  - destruct (g_fields _ _ G) as (_ & -> & _). simpl. lia.
+  - intros m Hm. apply (g_reg _ _ G m). exact Hm.
+  - intros m Hm. apply (g_heap _ _ G m). exact Hm.
+  - intros m H1 H2 Hr Hv Hk. apply (Q3 m); try assumption.
+    + rewrite I2. exact H1.
+    + destruct (g_static _ _ G2 m) as (_ & _ & _ & _ & _ & -> & _). exact Hr.
+    + destruct (g_static _ _ G2 m) as (_ & _ & _ & -> & _). exact Hv.
+    + destruct (g_static _ _ G2 m) as (-> & _). exact Hk.
+Qed.
+
+(** ** AddInput: the height repair and the edge *)
+Definition gfrI (s s' : state) : Prop := gfr s s' /\ forall m, inGraph (nd s' m) = inGraph (nd s m).
+
+Lemma gfrI_refl s : gfrI s s.
+Proof. split; [apply gfr_refl|reflexivity]. Qed.
+
+Lemma gfrI_trans s1 s2 s3 : gfrI s1 s2 -> gfrI s2 s3 -> gfrI s1 s3.
+Proof. intros [A1 A2] [B1 B2]. split; [eapply gfr_trans; eauto|]. intros m. rewrite B2, A2. reflexivity. Qed.
+
+Lemma gfrI_nodes s s' :
+  (forall m, static_eq (nd s m) (nd s' m) /\ inGraph (nd s' m) = inGraph (nd s m)) ->
+  (forall m, has s' m <-> has s m) ->
+  binds s' = binds s -> next s' = next s -> stabNum s' = stabNum s -> heap s' = heap s -> invq s' = invq s ->
+  gfrI s s'.
+Proof. intros Hn. split; [apply gfr_nodes; assumption|apply Hn]. Qed.
+
+Lemma gfrI_upd s n f :
+  (forall x, static_eq x (f x) /\ inGraph (f x) = inGraph x) -> gfrI s (upd s n f).
+Proof.
+  intros Hf. split; [apply gfr_upd, Hf|]. intros m.
+  destruct (decide (has s n)) as [Hn|Hn]; [|rewrite upd_missing by exact Hn; reflexivity].
+  rewrite nd_upd by exact Hn. destruct (decide (m = n)) as [->|]; [apply Hf|reflexivity].
+Qed.
+
+Lemma gfrI_setHeight s n h s' e : setHeight s n h = Ok (s', e) -> gfrI s s'.
+Proof.
+  intros H. split; [eapply gfr_setHeight; eauto|]. intros m. destruct e as [x|].
+  - apply setHeight_err in H as [_ ->]. reflexivity.
+  - apply (proj_nd_setHeight _ _ _ _ H inGraph). reflexivity.
+Qed.
+
+Lemma newQueued_gfrI_r s1 s2 s3 : newQueued s1 s2 -> gfrI s2 s3 -> newQueued s1 s3.
+Proof. intros Q [G I] m H1 H3 Hr Hv Hk. rewrite I in H3. apply (g_heap _ _ G). apply Q; assumption. Qed.
+
+Lemma newQueued_gfrI_l s1 s2 s3 : gfrI s1 s2 -> newQueued s2 s3 -> newQueued s1 s3.
+Proof.
+  intros [G I] Q m H1 H3 Hr Hv Hk. destruct (g_static _ _ G m) as (Ek & _ & _ & Ev & _ & Er & _).
+  apply Q; [rewrite I; exact H1|exact H3|congruence..].
+Qed.
+
+Lemma gfrI_adj s (a : adjheap) : gfrI s (s <| adj := a |>).
+Proof. apply gfrI_nodes; try reflexivity. intros m. split; [apply static_eq_refl|reflexivity]. Qed.
+
+Lemma gfrI_adjAdd s n s' : adjAdd s n = Ok s' -> gfrI s s'.
+Proof.
+  unfold adjAdd. destruct (negb _); [intros [= <-]; apply gfrI_refl|].
+  destruct (height (nd s n) <? 0); [discriminate|]. destruct (_ !! _); [|discriminate].
+  intros [= <-]. eapply gfrI_trans; [|apply gfrI_adj]. apply gfrI_upd. intros x. repeat split.
+Qed.
+
+Lemma gfrI_adjRemoveMin s r s' : adjRemoveMin s = Ok (r, s') -> gfrI s s'.
+Proof.
+  unfold adjRemoveMin. destruct (_ =? 0); [intros [= <- <-]; apply gfrI_refl|].
+  destruct (_ <? 0); [discriminate|]. destruct (adjScan _ _ _) as [[[x n] b']|]; [|intros [= <- <-]; apply gfrI_refl].
+  intros [= <- <-]. eapply gfrI_trans; [|apply gfrI_adj]. apply gfrI_upd. intros y. repeat split.
+Qed.
+
+Lemma gfrI_ensure s o c p s' e : ensureHeightRequirement s o c p = Ok (s', e) -> gfrI s s'.
+Proof.
+  unfold ensureHeightRequirement. destruct (bool_decide _); [intros [-> _]%fail_inv; apply gfrI_refl|].
+  destruct (_ >=? _); [|intros [-> _]%ok_inv; apply gfrI_refl].
+  intros H. apply ebind_inv in H as (s1 & e1 & E1 & [[-> H]|(_ & -> & _)]).
+  - apply lift_inv in E1 as [E1 _]. eapply gfrI_trans; [eapply gfrI_adjAdd; eauto|eapply gfrI_setHeight; eauto].
+  - unfold lift in E1. destruct (adjAdd s c) as [s2| |] eqn:Ea; simpl in E1; try discriminate.
+    injection E1 as <- _. eapply gfrI_adjAdd; eauto.
+Qed.
+
+Lemma heapRemove_inHeap_eq s n s' m : heapRemove s n = Ok s' ->
+  inHeap s' m = (negb (bool_decide (m = n)) && inHeap s m).
+Proof.
+  intros H. apply heapRemove_inv in H as (w & Hr & ->). unfold inHeap. cbn.
+  unfold Heap.remove in Hr. destruct (_ <? 0); [discriminate|]. destruct (_ !! _); [|discriminate].
+  destruct (bool_decide _); [|discriminate]. injection Hr as <-. unfold Heap.mem, Heap.hinOf. cbn.
+  destruct (decide (m = n)) as [->|Hne].
+  - rewrite lookup_delete, (bool_decide_eq_true_2 (n = n)) by reflexivity. simpl. reflexivity.
+  - rewrite lookup_delete_ne by congruence. rewrite (bool_decide_eq_false_2 (m = n)) by exact Hne. reflexivity.
+Qed.
+
+Lemma heapFix_mem s n s' : inHeap s n = true -> heapFix s n = Ok s' ->
+  only_heap s s' /\ forall m, inHeap s' m = inHeap s m.
+Proof.
+  intros Hn H. unfold heapFix, Heap.fix_ in H.
+  destruct (Heap.remove (heap s) n) as [w1| |] eqn:E1; simpl in H; try discriminate.
+  destruct (Heap.add w1 n (height (nd s n))) as [w2| |] eqn:E2; simpl in H; try discriminate.
+  injection H as <-. split; [apply only_heap_set|]. intros m.
+  assert (R : heapRemove s n = Ok (s <| heap := w1 |>)) by (unfold heapRemove; rewrite E1; reflexivity).
+  assert (A : heapAdd (s <| heap := w1 |>) n = Ok (s <| heap := w2 |>)).
+  { unfold heapAdd. cbn. change (nd (s <| heap := w1 |>) n) with (nd s n). rewrite E2. reflexivity. }
+  etransitivity; [exact (heapAdd_inHeap_eq _ _ _ m A)|].
+  pose proof (heapRemove_inHeap_eq _ _ _ m R) as Hr. cbv beta in Hr |- *. rewrite Hr. clear Hr.
+  destruct (decide (m = n)) as [->|Hne].
+  - rewrite (bool_decide_eq_true_2 (n = n)) by reflexivity. simpl. symmetry. exact Hn.
+  - rewrite (bool_decide_eq_false_2 (m = n)) by exact Hne. reflexivity.
+Qed.
+
+Lemma gfrI_only_heap s s' : only_heap s s' -> (forall m, inHeap s m = true -> inHeap s' m = true) -> gfrI s s'.
+Proof. intros O Hq. split; [apply gfr_only_heap; assumption|]. intros m. rewrite (oh_nd _ _ O). reflexivity. Qed.
+
+Lemma gfrI_efold {A} (f : state -> A -> M) l : (forall s a s' e, f s a = Ok (s', e) -> gfrI s s') ->
+  forall s s' e, efold f l s = Ok (s', e) -> gfrI s s'.
+Proof.
+  intros Hf. induction l as [|a l IH]; intros s s' e H; simpl in H.
+  - apply ok_inv in H as [-> _]. apply gfrI_refl.
+  - apply ebind_inv in H as (s1 & e1 & E1 & [[-> H]|(_ & -> & _)]).
+    + eapply gfrI_trans; [eapply Hf; eauto|eapply IH; eauto].
+    + eapply Hf; eauto.
+Qed.
+
+Lemma gfrI_adjustLoop fuel : forall s o s' e, adjustLoop fuel s o = Ok (s', e) -> gfrI s s'.
+Proof.
+  induction fuel as [|fuel IH]; intros s o s' e H; [discriminate|]. cbn [adjustLoop] in H.
+  destruct (_ <=? 0); [apply ok_inv in H as [-> _]; apply gfrI_refl|].
+  destruct (adjRemoveMin s) as [[r s1]| |] eqn:E1; simpl in H; try discriminate.
+  pose proof (gfrI_adjRemoveMin _ _ _ E1) as G1. destruct r as [p|]; [|discriminate].
+  apply ebind_inv in H as (s2 & e2 & E2 & H).
+  assert (G2 : gfrI s1 s2).
+  { unfold lift in E2. destruct (inHeap s1 p) eqn:Ep.
+    - destruct (heapFix s1 p) as [s2'| |] eqn:Ef; simpl in E2; try discriminate. injection E2 as <- _.
+      destruct (heapFix_mem _ _ _ Ep Ef) as [O Hm]. apply gfrI_only_heap; [exact O|]. intros m. rewrite Hm. auto.
+    - simpl in E2. injection E2 as <- _. apply gfrI_refl. }
+  destruct H as [[-> H]|(_ & -> & _)]; [|eapply gfrI_trans; eauto].
+  apply ebind_inv in H as (s3 & e3 & E3 & H).
+  assert (G3 : gfrI s2 s3).
+  { refine (gfrI_efold _ _ _ _ _ _ E3). intros st c st' e' Hc. eapply gfrI_ensure; eauto. }
+  destruct H as [[-> H]|(_ & -> & _)]; [|eapply gfrI_trans; [exact G1|eapply gfrI_trans; eauto]].
+  apply ebind_inv in H as (s4 & e4 & E4 & H).
+  assert (G4 : gfrI s3 s4).
+  { destruct (nkind (nd s3 p)); try (apply ok_inv in E4 as [-> _]; apply gfrI_refl).
+    refine (gfrI_efold _ _ _ _ _ _ E4). intros st r st' e' Hc.
+    destruct (isNecessary (nd st r)); [eapply gfrI_ensure; eauto|apply ok_inv in Hc as [-> _]; apply gfrI_refl]. }
+  eapply gfrI_trans; [exact G1|]. eapply gfrI_trans; [exact G2|]. eapply gfrI_trans; [exact G3|].
+  eapply gfrI_trans; [exact G4|]. destruct H as [[-> H]|(_ & -> & _)]; [eapply IH; eauto|apply gfrI_refl].
+Qed.
+
+Lemma gfrI_adjustHeights fuel s oc op s' e : adjustHeights fuel s oc op = Ok (s', e) -> gfrI s s'.
+Proof.
+  unfold adjustHeights. intros H. apply ebind_inv in H as (s1 & e1 & E1 & H).
+  eapply gfrI_trans; [apply gfrI_adj|]. eapply gfrI_trans; [eapply gfrI_ensure; eauto|].
+  destruct H as [[-> H]|(_ & -> & _)]; [eapply gfrI_adjustLoop; eauto|apply gfrI_refl].
+Qed.
+
+Lemma setStale_spec s n s' : setStale s n = Ok s' ->
+  gfrI s s' /\ (height (nd s n) <> unset -> inHeap s' n = true) /\ height (nd s' n) = height (nd s n).
+Proof.
+  intros H. apply setStale_inv in H as [[Hu ->]|[Hu H]].
+  - split; [apply gfrI_refl|]. split; [contradiction|reflexivity].
+  - cbv zeta in H. set (s1 := upd s n (set setAt (fun _ => stabNum s))) in *.
+    assert (G1 : gfrI s s1) by (apply gfrI_upd; intros x; repeat split).
+    assert (Hh : height (nd s1 n) = height (nd s n)) by (unfold s1; rewrite (nd_upd_proj height) by reflexivity; reflexivity).
+    destruct H as [[Hq ->]|[Hq H]].
+    + split; [exact G1|]. split; [intros _; exact Hq|exact Hh].
+    + assert (O : only_heap s1 s') by (apply heapAdd_inv in H as (w & _ & ->); apply only_heap_set).
+      split; [|split].
+      * eapply gfrI_trans; [exact G1|]. apply gfrI_only_heap; [exact O|]. intros m Hm. eapply heapAdd_inHeap; eauto.
+      * intros _. rewrite (heapAdd_inHeap_eq _ _ _ n H), (bool_decide_eq_true_2 (n = n)) by reflexivity. reflexivity.
+      * rewrite (oh_nd _ _ O). exact Hh.
+Qed.
+
+Lemma addChild_spec fuel s c p s' :
+  (forall m, valid (nd s m) = true) -> invq s = [] ->
+  addChild fuel s c p = Ok (s', None) -> gfr s s' /\ newQueued s s'.
+Proof.
+  intros Hv Hi H. unfold addChild in H.
+  apply ebind_inv in H as (s1 & e1 & E1 & [[-> H]|(Hne & _ & He)]); [|congruence].
+  assert (A1 : gfr s s1 /\ newQueued s s1).
+  { unfold addChildWithoutAdjustingHeights in E1.
+    set (sa := link s c p) in *.
+    set (sb := if valid (nd sa p) then sa else sa <| invq := invq sa ++ [c] |>) in *.
+    assert (Gb : gfrI s sb).
+    { assert (Eb : sb = sa).
+      { unfold sb. assert (valid (nd sa p) = true) as ->; [|reflexivity].
+        unfold sa. rewrite valid_nd_link. apply Hv. }
+      rewrite Eb. split; [apply gfr_link|]. intros m. apply inGraph_nd_link. }
+    destruct (isNecessary (nd s p)).
+    - apply ok_inv in E1 as [-> _]. split; [apply Gb|]. eapply newQueued_gfrI_r; [apply newQueued_refl|exact Gb].
+    - destruct (BN_spec _ _ _ _ _ E1) as [G Q]. split; [eapply gfr_trans; [apply Gb|exact G]|].
+      eapply newQueued_gfrI_l; [exact Gb|apply Q; reflexivity]. }
+  destruct A1 as [G1 Q1].
+  apply ebind_inv in H as (s2 & e2 & E2 & [[-> H]|(Hne & _ & He)]); [|congruence].
+  assert (G2 : gfrI s1 s2).
+  { destruct (_ >=? _); [eapply gfrI_adjustHeights; eauto|apply ok_inv in E2 as [-> _]; apply gfrI_refl]. }
+  apply ebind_inv in H as (s3 & e3 & E3 & [[-> H]|(Hne & _ & He)]); [|congruence].
+  apply lift_inv in E3 as [E3 _].
+  assert (Hi2 : invq s2 = []).
+  { apply (g_invq _ _ (gfr_trans _ _ _ G1 (proj1 G2)) Hv Hi). }
+  apply (propagateInvalidity_nil _ _ _ Hi2) in E3 as ->.
+  assert (G12 : gfr s s2) by (eapply gfr_trans; [exact G1|apply G2]).
+  assert (Q12 : newQueued s s2) by (eapply newQueued_gfrI_r; eauto).
+  destruct (_ || _).
+  - apply lift_inv in H as [H _]. destruct (heapAddIfNotPresent_mem _ _ _ H) as (O & _ & Hq).
+    assert (G3 : gfrI s2 s') by (apply gfrI_only_heap; assumption).
+    split; [eapply gfr_trans; [exact G12|apply G3]|]. eapply newQueued_gfrI_r; eauto.
+  - apply ok_inv in H as [-> _]. auto.
+Qed.
+
+Lemma wfb_height_nonneg s n : wfb s = true -> n ∈ allNodes s -> inGraph (nd s n) = true -> 0 <= height (nd s n).
+Proof.
+  intros Hwf Hn Hg. destruct (wfb_all _ Hwf) as (_ & _ & _ & _ & Hh & _).
+  pose proof (forallb_elem _ _ _ Hh Hn) as H. cbv beta zeta in H. rewrite Hg in H. simpl in H.
+  rewrite !andb_true_iff in H. destruct H as [[[H _] _] _]. apply Z.leb_le in H. exact H.
+Qed.
+
+Lemma ValInv_addInput s n a s' :
+  wfb s = true -> ValInv s -> wfb s' = true -> isMapN s n = true ->
+  addInput s n a = Ok (s', None) -> ValInv s'.
+Proof.
+  intros Hwf V Hwf' Hmn H. pose proof (vi_bf _ V) as HBF. destruct (isMapN_true _ _ Hmn) as [Hn [f Kf]].
+  pose proof (wfb_Struct s Hwf HBF) as HS.
+  assert (Hiq : invq s = []).
+  { destruct (wfb_all _ Hwf) as (_ & _ & _ & _ & _ & _ & _ & Ht & _). unfold transients_empty in Ht.
+    rewrite !andb_true_iff in Ht. destruct Ht as [[[[[[[_ Hi] _] _] _] _] _] _].
+    apply bool_decide_eq_true in Hi. exact Hi. }
+  unfold addInput in H. set (s1 := upd s n (set decl (fun l => l ++ [a]))) in *.
+  assert (Hnd1 : forall m, nd s1 m = if decide (m = n) then nd s n <| decl := decl (nd s n) ++ [a] |> else nd s m).
+  { intros m. unfold s1. rewrite nd_upd by exact Hn. destruct (decide (m = n)) as [->|]; reflexivity. }
+  assert (Hf1 : forall (A : Type) (g : node -> A) m, (forall x d, g (x <| decl := d |>) = g x) -> g (nd s1 m) = g (nd s m)).
+  { intros A g m Hg. rewrite Hnd1. destruct (decide (m = n)) as [->|]; [apply Hg|reflexivity]. }
+  assert (Hd1 : forall m, m <> n -> decl (nd s1 m) = decl (nd s m)).
+  { intros m Hm. rewrite Hnd1, decide_False by exact Hm. reflexivity. }
+  assert (Hhas1 : forall m, has s1 m <-> has s m) by (intros m; apply has_upd).
+  (* the rest of the operation, as a frame from s1 *)
+  assert (Hrest : gfr s1 s' /\ newQueued s1 s' /\ (inGraph (nd s' n) = true -> inHeap s' n = true)).
+  { destruct (Z.eqb_spec (height (nd s1 n)) unset) as [Eu|Eu].
+    - apply ok_inv in H as [-> _]. split; [apply gfr_refl|]. split; [apply newQueued_refl|].
+      intros Hg. exfalso. rewrite (Hf1 _ inGraph) in Hg by reflexivity. rewrite (Hf1 _ height) in Eu by reflexivity.
+      pose proof (st_hnonneg _ HS n Hg). unfold unset in Eu. lia.
+    - apply ebind_inv in H as (s2 & e2 & E2 & [[-> H]|(Hne & _ & He)]); [|congruence].
+      destruct (addChild_spec (opFuel s1) s1 n a s2) as [G2 Q2]; [| |exact E2|].
+      + intros m. rewrite (Hf1 _ valid) by reflexivity. apply (bf_valid s HBF).
+      + exact Hiq.
+      + apply lift_inv in H as [H _]. destruct (setStale_spec _ _ _ H) as (G3 & Hq & Hh).
+        pose proof (gfr_trans _ _ _ G2 (proj1 G3)) as G.
+        split; [exact G|]. split; [eapply newQueued_gfrI_r; eauto|].
+        intros Hg. apply Hq. rewrite <- Hh.
+        assert (Hall : n ∈ allNodes s').
+        { apply elem_allNodes. split; [apply (g_has _ _ G), Hhas1, Hn|].
+          destruct (g_fields _ _ G) as (_ & -> & _). apply (bf_has_lt s HBF n Hn). }
+        pose proof (wfb_height_nonneg s' n Hwf' Hall Hg). unfold unset. lia. }
+  destruct Hrest as (G & Q & Hqn).
+  apply (ValInv_grow s s' Hwf V Hwf').
+  - intros m. destruct (g_static _ _ G m) as (E1 & E2 & E3 & E4 & E5 & E6 & E7).
+    rewrite E1, E3, E4, E5, E6, E7. repeat split; apply Hf1; reflexivity.
+  - intros m. destruct (decide (m = n)) as [->|Hm].
+    + right. split; [eauto|exact Hqn].
+    + left. destruct (g_static _ _ G m) as (_ & -> & _). apply Hd1, Hm.
+  - intros m. rewrite (g_has _ _ G m). apply Hhas1.
+  - apply (g_fields _ _ G).
+  - apply (g_fields _ _ G).
+  - destruct (g_fields _ _ G) as (_ & -> & _). simpl. lia.
+  - intros m Hm. apply (g_reg _ _ G m). rewrite (Hf1 _ inGraph) by reflexivity. exact Hm.
+  - intros m Hm. apply (g_heap _ _ G m). exact Hm.
+  - intros m H1 H2 Hr Hv Hk. apply (Q m); try assumption.
+    + rewrite (Hf1 _ inGraph) by reflexivity. exact H1.
+    + rewrite (Hf1 _ recomputedAt) by reflexivity. exact Hr.
+    + rewrite (Hf1 _ valid) by reflexivity. exact Hv.
+    + rewrite (Hf1 _ nkind) by reflexivity. exact Hk.
+Qed.
+
+(** ** Unobserve / RemoveInput: tearing nodes down *)
+Definition static5 (x y : node) : Prop :=
+  nkind y = nkind x /\ decl y = decl x /\ scope y = scope x /\ valid y = valid x /\ value y = value x.
+
+Record sfr (s s' : state) : Prop := {
+  z_static : forall m, static5 (nd s m) (nd s' m);
+  z_fields : binds s' = binds s /\ next s' = next s /\ stabNum s' = stabNum s;
+  z_has : forall m, has s' m <-> has s m;
+  z_st : forall m,
+    (inGraph (nd s' m) = inGraph (nd s m) /\ recomputedAt (nd s' m) = recomputedAt (nd s m) /\
+     changedAt (nd s' m) = changedAt (nd s m)) \/
+    (inGraph (nd s' m) = false /\ recomputedAt (nd s' m) = 0 /\ changedAt (nd s' m) = 0);
+  z_heap : forall m, inGraph (nd s' m) = true -> inHeap s m = true -> inHeap s' m = true
+}.
+
+Lemma sfr_refl s : sfr s s.
+Proof. constructor; auto; try reflexivity. intros m. repeat split. Qed.
+
+Lemma sfr_reg s s' m : sfr s s' -> inGraph (nd s' m) = true -> inGraph (nd s m) = true.
+Proof. intros F Hg. destruct (z_st _ _ F m) as [(E & _)|(E & _)]; congruence. Qed.
+
+Lemma sfr_trans s1 s2 s3 : sfr s1 s2 -> sfr s2 s3 -> sfr s1 s3.
+Proof.
+  intros A B. constructor.
+  - intros m. destruct (z_static _ _ A m) as (? & ? & ? & ? & ?), (z_static _ _ B m) as (? & ? & ? & ? & ?).
+    unfold static5. repeat split; congruence.
+  - destruct (z_fields _ _ A) as (? & ? & ?), (z_fields _ _ B) as (? & ? & ?). repeat split; congruence.
+  - intros m. rewrite (z_has _ _ B), (z_has _ _ A). reflexivity.
+  - intros m. destruct (z_st _ _ B m) as [(E1 & E2 & E3)|Z]; [|right; exact Z].
+    destruct (z_st _ _ A m) as [(F1 & F2 & F3)|(F1 & F2 & F3)]; [left|right]; repeat split; congruence.
+  - intros m Hg Hq. apply (z_heap _ _ B m Hg). apply (z_heap _ _ A m); [|exact Hq]. eapply sfr_reg; eauto.
+Qed.
+
+Lemma sfr_nodes s s' :
+  (forall m, static5 (nd s m) (nd s' m) /\ inGraph (nd s' m) = inGraph (nd s m) /\
+             recomputedAt (nd s' m) = recomputedAt (nd s m) /\ changedAt (nd s' m) = changedAt (nd s m)) ->
+  (forall m, has s' m <-> has s m) ->
+  binds s' = binds s -> next s' = next s -> stabNum s' = stabNum s ->
+  (forall m, inHeap s m = true -> inHeap s' m = true) -> sfr s s'.
+Proof.
+  intros Hn Hh Hb Hnx Hk Hq. constructor; auto.
+  - intros m. apply Hn.
+  - intros m. left. apply Hn.
+Qed.
+
+Lemma sfr_upd s n f :
+  (forall x, static5 x (f x) /\ inGraph (f x) = inGraph x /\ recomputedAt (f x) = recomputedAt x /\
+             changedAt (f x) = changedAt x) -> sfr s (upd s n f).
+Proof.
+  intros Hf. apply sfr_nodes; try reflexivity; [|intros m; apply has_upd|auto].
+  intros m. destruct (decide (has s n)) as [Hn|Hn]; [|rewrite upd_missing by exact Hn; repeat split].
+  rewrite nd_upd by exact Hn. destruct (decide (m = n)) as [->|]; [apply Hf|repeat split].
+Qed.
+
+Lemma sfr_emit s e : sfr s (emit e s).
+Proof. apply sfr_nodes; try reflexivity; auto. intros m. repeat split. Qed.
+
+Lemma sfr_unlink s c p : sfr s (unlink s c p).
+Proof. unfold unlink. eapply sfr_trans; apply sfr_upd; intros x; repeat split. Qed.
+
+Lemma sfr_removeNode s n s' : removeNode s n = Ok s' -> sfr s s'.
+Proof.
+  intros H. constructor.
+  - intros m. unfold static5. rewrite (nkind_nd_removeNode _ _ _ H), (decl_nd_removeNode _ _ _ H),
+      (scope_nd_removeNode _ _ _ H), (valid_nd_removeNode _ _ _ H), (value_nd_removeNode _ _ _ H). repeat split.
+  - rewrite (binds_removeNode _ _ _ H), (next_removeNode _ _ _ H), (stabNum_removeNode _ _ _ H). repeat split.
+  - intros m. apply (has_removeNode _ _ _ H).
+  - intros m. rewrite (inGraph_nd_removeNode _ _ _ H), (recomputedAt_nd_removeNode _ _ _ H),
+      (changedAt_nd_removeNode _ _ _ H). destruct (decide (m = n)); [right|left]; repeat split.
+  - intros m Hg Hq. rewrite (inGraph_nd_removeNode _ _ _ H) in Hg.
+    destruct (decide (m = n)) as [->|Hne]; [discriminate|].
+    pose proof (heap_removeNode _ _ _ H) as Hh. destruct (inHeap s n).
+    + destruct Hh as (s1 & Hr & Eh). unfold inHeap. rewrite Eh. fold (inHeap s1 m).
+      rewrite (heapRemove_inHeap_eq _ _ _ m Hr), (bool_decide_eq_false_2 (m = n)) by exact Hne. exact Hq.
+    + unfold inHeap. rewrite Hh. exact Hq.
+Qed.
+
+Lemma sfr_rfold {A} (f : state -> A -> res state) l :
+  (forall s a s', f s a = Ok s' -> sfr s s') -> forall s s', rfold f l s = Ok s' -> sfr s s'.
+Proof.
+  intros Hf. induction l as [|a l IH]; intros s s' H.
+  - injection H as <-. apply sfr_refl.
+  - rewrite rfold_cons in H. destruct (f s a) as [s1| |] eqn:E1; simpl in H; try discriminate.
+    eapply sfr_trans; [eapply Hf; eauto|eapply IH; eauto].
+Qed.
+
+Lemma sfr_removeParents fuel : forall s c s', removeParents fuel s c = Ok s' -> sfr s s'.
+Proof.
+  induction fuel as [|fuel IH]; intros s c s' H; [discriminate|]. cbn [removeParents] in H.
+  refine (sfr_rfold _ _ _ _ _ H). clear H. intros st p st' H.
+  eapply sfr_trans; [apply (sfr_unlink st c p)|].
+  destruct (isNecessary _); [injection H as <-; apply sfr_refl|].
+  destruct (negb _); [injection H as <-; apply sfr_refl|].
+  destruct (removeParents fuel _ p) as [s1| |] eqn:E1; simpl in H; try discriminate.
+  eapply sfr_trans; [apply sfr_emit|]. eapply sfr_trans; [eapply IH; eauto|eapply sfr_removeNode; eauto].
+Qed.
+
+Lemma sfr_checkIfUnnecessary fuel s p s' : checkIfUnnecessary fuel s p = Ok s' -> sfr s s'.
+Proof.
+  unfold checkIfUnnecessary. destruct (isNecessary _); [intros [= <-]; apply sfr_refl|].
+  destruct (negb _); [intros [= <-]; apply sfr_refl|]. intros H.
+  destruct (removeParents fuel _ p) as [s1| |] eqn:E1; simpl in H; try discriminate.
+  eapply sfr_trans; [apply sfr_emit|]. eapply sfr_trans; [eapply sfr_removeParents; eauto|eapply sfr_removeNode; eauto].
+Qed.
+
+Lemma BF_static s s' :
+  BF s ->
+  (forall m, nkind (nd s' m) = nkind (nd s m) /\ scope (nd s' m) = scope (nd s m) /\
+             valid (nd s' m) = valid (nd s m) /\ value (nd s' m) = value (nd s m)) ->
+  (forall m, decl (nd s' m) = decl (nd s m) \/ exists f, nkind (nd s m) = KMapN f) ->
+  (forall m, has s' m <-> has s m) -> binds s' = binds s -> (next s <= next s')%nat -> BF s'.
+Proof.
+  intros HBF G1 G2 Hhas Hb Hnx. split; [rewrite Hb; apply HBF|].
+  intros m x Hx. assert (Hm' : has s' m) by (exists x; exact Hx).
+  assert (Hm : has s m) by (apply Hhas, Hm'). rewrite <- (nd_lookup _ _ _ Hx).
+  pose proof (bf_node_nd s HBF m Hm) as Hbn. apply bf_node_iff in Hbn as (H1 & H2 & H3 & H4 & H5 & H6 & H7).
+  destruct (G1 m) as (Ek & Es & Ev & Eva). apply bf_node_iff. rewrite Ek, Es, Ev.
+  repeat split; try assumption; try lia.
+  - unfold arity_ok in *. rewrite Ek. destruct (G2 m) as [->|[f Kf]]; [exact H5|]. rewrite Kf. reflexivity.
+  - unfold cutalways_zero in *. rewrite Ek, Eva. exact H6.
+  - unfold always_lt in *. rewrite Ek. destruct (G2 m) as [->|[f Kf]]; [exact H7|]. rewrite Kf. reflexivity.
+Qed.
+
+(** the generic argument for operations that only remove nodes / edges *)
+Lemma ValInv_shrink s s' :
+  wfb s = true -> ValInv s -> wfb s' = true ->
+  (forall m, nkind (nd s' m) = nkind (nd s m) /\ scope (nd s' m) = scope (nd s m) /\
+             valid (nd s' m) = valid (nd s m) /\ value (nd s' m) = value (nd s m)) ->
+  (forall m, decl (nd s' m) = decl (nd s m) \/
+             ((exists f, nkind (nd s m) = KMapN f) /\ (inGraph (nd s' m) = true -> inHeap s' m = true))) ->
+  (forall m, has s' m <-> has s m) -> binds s' = binds s -> stabNum s' = stabNum s -> next s' = next s ->
+  (forall m,
+    (inGraph (nd s' m) = inGraph (nd s m) /\ recomputedAt (nd s' m) = recomputedAt (nd s m) /\
+     changedAt (nd s' m) = changedAt (nd s m)) \/
+    (inGraph (nd s' m) = false /\ recomputedAt (nd s' m) = 0 /\ changedAt (nd s' m) = 0)) ->
+  (forall m, inGraph (nd s' m) = true -> inHeap s m = true -> inHeap s' m = true) ->
+  ValInv s'.
+Proof.
+  intros Hwf V Hwf' Z1 Z2 Hhas Hb Hk Hnx Z4 Z5. pose proof (vi_bf _ V) as HBF.
+  assert (HBF' : BF s').
+  { apply (BF_static s s' HBF Z1); try assumption; [|lia]. intros m. destruct (Z2 m) as [?|[? _]]; auto. }
+  pose proof (wfb_Struct s Hwf HBF) as HS. pose proof (wfb_Struct s' Hwf' HBF') as HS'.
+  assert (Hreg : forall m, inGraph (nd s' m) = true ->
+             inGraph (nd s m) = true /\ recomputedAt (nd s' m) = recomputedAt (nd s m) /\
+             changedAt (nd s' m) = changedAt (nd s m)).
+  { intros m Hg. destruct (Z4 m) as [(E1 & E2 & E3)|(E1 & _)]; [|congruence]. split; [congruence|auto]. }
+  apply (ValInv_transfer s s' Hwf V Hwf' HBF' Hk).
+  - intros m _. destruct (Z1 m) as (Ek & _ & _ & Eva). split; [exact Ek|]. split; [exact Eva|].
+    intros Ka. destruct (Z2 m) as [?|[[f Kf] _]]; [assumption|congruence].
+  - intros m Hg. apply (Hreg m Hg).
+  - intros m Hg. destruct (Z4 m) as [(E1 & -> & ->)|(_ & ? & ?)]; [|auto]. apply (vi_unreg _ V m). congruence.
+  - intros m Hg Hs. destruct (Z2 m) as [Hd|[_ Hq]]; [|apply Hq, Hg].
+    destruct (Hreg m Hg) as (Hg0 & Er & _). apply (Z5 m Hg). apply (vi_owed _ V m Hg0).
+    rewrite <- Hs. symmetry. destruct (Z1 m) as (Ek & _ & Ev & _).
+    assert (Hpar : forall p, p ∈ parents (nd s' m) <-> p ∈ parents (nd s m)).
+    { intros p. rewrite (st_par _ HS m p Hg0), (st_par _ HS' m p Hg), Hd. reflexivity. }
+    apply isStale_fields; try assumption. intros p Hp. apply (Hreg p).
+    apply (edge_reg s' HS' p m), (parent_edge s' HS'), Hpar, Hp.
+  - intros m Hg Hq. destruct (Z2 m) as [Hd|[_ Hq']]; [|rewrite (Hq' Hg) in Hq; discriminate].
+    right. destruct (Hreg m Hg) as (Hg0 & _). split; [exact Hg0|]. split; [|exact Hd].
+    destruct (inHeap s m) eqn:Eq; [|reflexivity]. rewrite (Z5 m Hg Eq) in Hq. discriminate.
+  - intros p Hg Hq. apply (Z5 p Hg Hq).
+Qed.
+
+Lemma ValInv_unobserve s o s' :
+  wfb s = true -> ValInv s -> wfb s' = true -> unobserve s o = Ok s' -> ValInv s'.
+Proof.
+  intros Hwf V Hwf' H. unfold unobserve in H. destruct (obs s !! o) as [n|]; [|injection H as <-; exact V].
+  set (s1 := s <| obs := delete o (obs s) |> <| numNodes := numNodes s - 1 |> <| handlers := rm o (handlers s) |>) in *.
+  set (s2 := upd s1 n (set observers (rm o))) in *.
+  assert (F2 : sfr s1 s2) by (apply sfr_upd; intros x; repeat split).
+  pose proof (sfr_trans _ _ _ F2 (sfr_checkIfUnnecessary _ _ _ _ H)) as F.
+  apply (ValInv_shrink s s' Hwf V Hwf').
+  - intros m. destruct (z_static _ _ F m) as (E1 & E2 & E3 & E4 & E5). auto.
+  - intros m. left. apply (z_static _ _ F m).
+  - intros m. apply (z_has _ _ F m).
+  - apply (z_fields _ _ F).
+  - apply (z_fields _ _ F).
+  - apply (z_fields _ _ F).
+  - intros m. apply (z_st _ _ F m).
+  - intros m. apply (z_heap _ _ F m).
+Qed.
+
+Lemma ValInv_removeInput s n a s' :
+  wfb s = true -> ValInv s -> wfb s' = true -> isMapN s n = true ->
+  removeInput s n a = Ok s' -> ValInv s'.
+Proof.
+  intros Hwf V Hwf' Hmn H. pose proof (vi_bf _ V) as HBF. destruct (isMapN_true _ _ Hmn) as [Hn [f Kf]].
+  pose proof (wfb_Struct s Hwf HBF) as HS.
+  unfold removeInput in H. destruct (negb _); [injection H as <-; exact V|].
+  set (s1 := upd s n (set decl (rm a))) in *.
+  set (s2 := upd s1 n (set parents (rm a))) in *.
+  set (s3 := upd s2 a (set children (rm n))) in *.
+  destruct (setStale s3 n) as [s4| |] eqn:E4; simpl in H; try discriminate.
+  destruct (setStale_spec _ _ _ E4) as ([G4 I4] & Hq4 & Hh4).
+  pose proof (sfr_checkIfUnnecessary _ _ _ _ H) as F5.
+  (* node fields from s to s3 *)
+  assert (Hf3 : forall (A : Type) (g : node -> A) m,
+            (forall x d, g (x <| decl := d |>) = g x) -> (forall x d, g (x <| parents := d |>) = g x) ->
+            (forall x d, g (x <| children := d |>) = g x) -> g (nd s3 m) = g (nd s m)).
+  { intros A g m H1 H2 H3. unfold s3, s2, s1.
+    rewrite (nd_upd_proj g) by (intros; apply H3). rewrite (nd_upd_proj g) by (intros; apply H2).
+    rewrite (nd_upd_proj g) by (intros; apply H1). reflexivity. }
+  assert (Hd3 : forall m, m <> n -> decl (nd s3 m) = decl (nd s m)).
+  { intros m Hm. unfold s3, s2. rewrite (nd_upd_proj decl), (nd_upd_proj decl) by reflexivity.
+    unfold s1. rewrite nd_upd_ne by exact Hm. reflexivity. }
+  assert (Hhas3 : forall m, has s3 m <-> has s m).
+  { intros m. unfold s3, s2, s1. rewrite !has_upd. reflexivity. }
+  apply (ValInv_shrink s s' Hwf V Hwf').
+  - intros m. destruct (z_static _ _ F5 m) as (E1 & E2 & E3 & E4' & E5).
+    destruct (g_static _ _ G4 m) as (K1 & K2 & K3 & K4 & K5 & K6 & K7).
+    rewrite E1, E3, E4', E5, K1, K3, K4, K5. repeat split; apply Hf3; reflexivity.
+  - intros m. destruct (decide (m = n)) as [->|Hm].
+    + right. split; [eauto|]. intros Hg. apply (z_heap _ _ F5 n Hg). apply Hq4.
+      assert (Hg3 : inGraph (nd s n) = true).
+      { rewrite <- (Hf3 _ inGraph n) by reflexivity. rewrite <- I4. eapply sfr_reg; eauto. }
+      rewrite (Hf3 _ height) by reflexivity. pose proof (st_hnonneg _ HS n Hg3). unfold unset. lia.
+    + left. destruct (z_static _ _ F5 m) as (_ & -> & _). destruct (g_static _ _ G4 m) as (_ & -> & _).
+      apply Hd3, Hm.
+  - intros m. rewrite (z_has _ _ F5 m), (g_has _ _ G4 m). apply Hhas3.
+  - destruct (z_fields _ _ F5) as (-> & _), (g_fields _ _ G4) as (-> & _). reflexivity.
+  - destruct (z_fields _ _ F5) as (_ & _ & ->), (g_fields _ _ G4) as (_ & _ & ->). reflexivity.
+  - destruct (z_fields _ _ F5) as (_ & -> & _), (g_fields _ _ G4) as (_ & -> & _). reflexivity.
+  - intros m. destruct (g_static _ _ G4 m) as (_ & _ & _ & _ & _ & K6 & K7).
+    destruct (z_st _ _ F5 m) as [(E1 & E2 & E3)|Z]; [left|right; exact Z].
+    rewrite E1, E2, E3, I4, K6, K7. repeat split; apply Hf3; reflexivity.
+  - intros m Hg Hq. apply (z_heap _ _ F5 m Hg). apply (g_heap _ _ G4 m). exact Hq.
+Qed.
+
+(** * Q. Histories of the fragment *)
+
+(** the operations of the fragment: no binds, no parallel pass, passes without a plan *)
+Definition static_op (o : op) : bool :=
+  match o with
+  | NewVar _ _ | NewReturn _ | NewMap _ _ | NewMap2 _ _ _ | NewMapN _ _ | NewCutoff _ _ | NewAlways _
+  | Observe _ | Unobserve _ | SetVar _ _ | UpdateVar _ _ | AddInput _ _ | RemoveInput _ _ => true
+  | Stabilize p => bool_decide (p = [])
+  | StabilizeCancelled => true
+  | _ => false
+  end.
+
+Lemma stabilize_cancelled_ok p s s' :
+  stabilize p true s = Ok (s', None) -> stabilize p false s = Ok (s', None).
+Proof.
+  unfold stabilize. destruct (negb (status s =? 0)); [intros H; exact H|].
+  cbv zeta. set (s1 := emit EvPassStart (s <| status := 1 |>)).
+  destruct (0 <? Heap.cnt (heap s1)); [|intros H; exact H].
+  simpl. intros H. exfalso.
+  destruct (stabilizeEnd s1 (Some ECancelled)) as [s2| |]; simpl in H; discriminate.
+Qed.
+
+Lemma fresh_bf s k d v :
+  BF s -> isBindKind k = false ->
+  arity_ok (fresh_node k d None v) = true -> cutalways_zero (fresh_node k d None v) = true ->
+  always_lt (next s) (fresh_node k d None v) = true ->
+  bf_node (newNode s k d None v).1 (next s) (fresh_node k d None v) = true.
+Proof.
+  intros HBF Hk Ha Hc Hl. apply bf_node_iff. rewrite next_newNode. repeat split; try assumption. lia.
+Qed.
+
+Lemma isUserNode_lt s a : BF s -> isUserNode s a = true -> (a <? next s)%nat = true.
+Proof. intros HBF H. apply Nat.ltb_lt. apply (bf_has_lt s HBF). apply (isUserNode_true _ _ H). Qed.
+
+Theorem step_ValInv s o s' :
+  wfb s = true -> ValInv s -> static_op o = true -> op_ok s o = true ->
+  step s o = Ok (s', None) -> wfb s' = true -> ValInv s'.
+Proof.
+  intros Hwf V Hso Hok H Hwf'. pose proof (vi_bf _ V) as HBF.
+  destruct o; try discriminate Hso; cbn [step op_ok] in H, Hok.
+  - apply ok_inv in H as [-> _]. apply ValInv_newNode; try assumption. apply fresh_bf; auto.
+  - apply ok_inv in H as [-> _]. apply ValInv_newNode; try assumption. apply fresh_bf; auto.
+  - apply ok_inv in H as [-> _]. apply ValInv_newNode; try assumption. apply fresh_bf; auto.
+  - apply ok_inv in H as [-> _]. apply ValInv_newNode; try assumption. apply fresh_bf; auto.
+  - apply ok_inv in H as [-> _]. apply ValInv_newNode; try assumption. apply fresh_bf; auto.
+  - apply ok_inv in H as [-> _]. apply ValInv_newNode; try assumption. apply fresh_bf; auto.
+    unfold cutalways_zero. simpl. destruct c; reflexivity.
+  - apply ok_inv in H as [-> _]. apply ValInv_newNode; try assumption. apply fresh_bf; auto.
+    unfold always_lt. simpl. apply isUserNode_lt; assumption.
+  - exact (ValInv_observe s n s' Hwf V Hwf' H).
+  - apply lift_inv in H as [H _]. exact (ValInv_unobserve s o s' Hwf V Hwf' H).
+  - apply lift_inv in H as [H _]. exact (ValInv_varSet s v x s' Hwf V Hok H).
+  - apply lift_inv in H as [H _]. exact (ValInv_varUpdate s v d s' Hwf V Hok H).
+  - apply andb_true_iff in Hok as [Hok _]. exact (ValInv_addInput s n a s' Hwf V Hwf' Hok H).
+  - apply andb_true_iff in Hok as [Hok _]. apply lift_inv in H as [H _].
+    exact (ValInv_removeInput s n a s' Hwf V Hwf' Hok H).
+  - apply bool_decide_eq_true in Hso. subst p. apply (pass_consistent s s' Hwf V H).
+  - apply stabilize_cancelled_ok in H. apply (pass_consistent s s' Hwf V H).
+Qed.
+
+(** a history of the fragment in which every operation is well-formed, succeeds without an error
+    result (no crash, no rejection for a cycle or the height limit, no cancelled pass), and after
+    which the structural invariant [wfb] holds (the subject of C05: EngineInvProofs) *)
+Inductive static_run : state -> list op -> state -> Prop :=
+| sr_nil s : static_run s [] s
+| sr_cons s o os s1 s' :
+    static_op o = true -> op_ok s o = true -> step s o = Ok (s1, None) -> wfb s1 = true ->
+    static_run s1 os s' -> static_run s (o :: os) s'.
+
+Lemma static_run_inv s os s' :
+  wfb s = true -> ValInv s -> static_run s os s' -> wfb s' = true /\ ValInv s'.
+Proof.
+  intros Hwf V R. induction R as [s|s o os s1 s' Hso Hok Hst Hwf1 R IH]; [auto|].
+  apply IH; [exact Hwf1|]. exact (step_ValInv s o s1 Hwf V Hso Hok Hst Hwf1).
+Qed.
+
+Lemma static_run_split s os1 : forall o os2 s',
+  static_run s (os1 ++ o :: os2) s' ->
+  exists s1 s2, static_run s os1 s1 /\ static_op o = true /\ op_ok s1 o = true /\
+                step s1 o = Ok (s2, None) /\ wfb s2 = true /\ static_run s2 os2 s'.
+Proof.
+  revert s. induction os1 as [|o1 os1 IH]; intros s o os2 s' R; simpl in R.
+  - inv R. exists s, s1. split; [constructor|auto].
+  - inv R. destruct (IH _ _ _ _ H7) as (t1 & t2 & R1 & Hrest). exists t1, t2. split; [|exact Hrest].
+    econstructor; eauto.
+Qed.
+
+(** C01 for histories of the fragment: after every pass of the history every registered node is
+    locally consistent and every observer reads the from-scratch value of its node *)
+Theorem static_history_consistent s0 os1 o os2 s' :
+  wfb s0 = true -> ValInv s0 -> static_run s0 (os1 ++ o :: os2) s' -> is_pass o = true ->
+  exists s1 s2, static_run s0 os1 s1 /\ step s1 o = Ok (s2, None) /\
+                consistent s2 = true /\ observers_agree s2 = true /\ wfb s2 = true /\ ValInv s2.
+Proof.
+  intros Hwf V R Hp. destruct (static_run_split _ _ _ _ _ R) as (s1 & s2 & R1 & Hso & Hok & Hst & Hwf2 & _).
+  destruct (static_run_inv _ _ _ Hwf V R1) as [Hwf1 V1].
+  exists s1, s2. split; [exact R1|]. split; [exact Hst|].
+  assert (Hpass : stabilize [] false s1 = Ok (s2, None)).
+  { destruct o; try discriminate Hp; try discriminate Hso; simpl in Hst.
+    - apply bool_decide_eq_true in Hso. subst p. exact Hst.
+    - apply stabilize_cancelled_ok, Hst. }
+  destruct (pass_all s1 s2 Hwf1 V1 Hpass) as (Hc & Hw & V2 & Ho). auto.
+Qed.
+
+(** a boolean version of [static_run], to exhibit concrete histories *)
+Fixpoint static_run_b (s : state) (os : list op) : option state :=
+  match os with
+  | [] => Some s
+  | o :: os =>
+    if static_op o && op_ok s o then
+      match step s o with
+      | Ok (s1, None) => if wfb s1 then static_run_b s1 os else None
+      | _ => None
+      end
+    else None
+  end.
+
+Lemma static_run_b_sound os : forall s s', static_run_b s os = Some s' -> static_run s os s'.
+Proof.
+  induction os as [|o os IH]; intros s s' H; simpl in H.
+  - injection H as <-. constructor.
+  - destruct (static_op o && op_ok s o) eqn:E1; [|discriminate]. apply andb_true_iff in E1 as [E1 E2].
+    destruct (step s o) as [[s1 [e|]]| |] eqn:E3; try discriminate.
+    destruct (wfb s1) eqn:E4; [|discriminate]. econstructor; eauto.
+Qed.
+
+Definition ex_history : list op := ex_ops ++ [Stabilize []].
+
+Lemma ex_history_runs : exists s', static_run (init 64) ex_history s'.
+Proof.
+  assert (H : match static_run_b (init 64) ex_history with Some _ => true | None => false end = true)
+    by (vm_compute; reflexivity).
+  destruct (static_run_b (init 64) ex_history) as [s'|] eqn:E; [|discriminate H].
+  exists s'. apply static_run_b_sound. exact E.
+Qed.
+
+Lemma init_hyps : wfb (init 64) = true /\ ValInv (init 64).
+Proof. split; [vm_compute; reflexivity|apply ValInv_init]. Qed.
